@@ -10,7 +10,8 @@
            complete but not finalised, finalised and freed), every operation in every state.
    Part 6 (placed before 4): the structural invariant SI and its closure under calls addressed to listed sub-edits.
    Part 4: closing induction over trees (initA).  Part 5: the value is the cost of the big-step script. *)
-From Coq Require Import ZArith List Bool Lia.
+From Coq Require Import ZArith List Bool Lia Permutation.
+Require Import GT.MachineCore GT.MachineMatch.
 Require Import GT.PyBase GT.Data GT.EdTypes GT.EdEngine GT.LevModel GTgen.EdGen GT.EdParams GT.ScriptSpec GT.ScriptModel
                GT.EdEngineProofs GT.MachineSpec GT.MachineModel GT.MachineProofs GT.ApiSpec GT.ApiModel.
 Import ListNotations.
@@ -1495,6 +1496,1253 @@ Proof.
                      Hd Hrc Hic Hmc HK0 HK HU). exact HFI.
 Qed.
 
+Lemma Forall2_set_nth : forall {A B} (R : A -> B -> Prop) l l' i x y, Forall2 R l l' -> nth_error l' i = Some y -> R x y ->
+  Forall2 R (set_nth i x l) l'.
+Proof.
+  intros A B R l l' i x y H. revert i. induction H as [|a b l l' Hab Ht IH]; intros [|i] Hy Hx; cbn [nth_error set_nth] in *;
+    try discriminate.
+  - injection Hy as <-. constructor; assumption.
+  - constructor; [exact Hab|apply IH; assumption].
+Qed.
+
+(* ================================================================ Part 3b: MultiSetEdit + WeightedBipartiteMatcher over
+   sub-edits under a contract *)
+Definition inr (r : zr) (v : Z) : Prop := fst r <= v <= snd r.
+
+Lemma F2_nth : forall {A B} (R : A -> B -> Prop) l l' i da db, Forall2 R l l' -> (i < length l)%nat -> R (nth i l da) (nth i l' db).
+Proof.
+  intros A B R l l' i da db H. revert i. induction H as [|a b l l' Hab _ IH]; intros [|i] Hi; cbn [length nth] in *; try lia.
+  - exact Hab.
+  - apply IH. lia.
+Qed.
+
+Lemma nth_map_lt : forall {A B} (f : A -> B) l i db da, (i < length l)%nat -> nth i (map f l) db = f (nth i l da).
+Proof.
+  intros A B f. induction l as [|a l IH]; intros [|i] db da Hi; cbn [length nth map] in *; try lia; [reflexivity|].
+  apply IH. lia.
+Qed.
+
+Lemma set_nth_same : forall {A} (l : list A) i x, nth_error l i = Some x -> set_nth i x l = l.
+Proof.
+  intros A. induction l as [|a l IH]; intros [|i] x H; cbn [nth_error set_nth] in *; try discriminate.
+  - injection H as ->. reflexivity.
+  - f_equal. apply IH. exact H.
+Qed.
+
+Lemma nth_error_row : forall {A} (e : list (list A)) i j x, nth_error (nth i e []) j = Some x -> nth_error e i = Some (nth i e []).
+Proof.
+  intros A e i j x H. destruct (nth_error e i) as [row|] eqn:E.
+  - f_equal. symmetry. apply nth_nth_error. exact E.
+  - apply nth_error_None in E. rewrite nth_overflow in H by exact E. destruct j; discriminate.
+Qed.
+
+Lemma set2_same : forall {A} (e : list (list A)) i j x, mget e i j = Some x -> set2 e i j x = e.
+Proof.
+  intros A e i j x H. rewrite mget_nth in H. unfold set2. rewrite (set_nth_same _ _ _ H).
+  apply set_nth_same. apply (nth_error_row e i j x H).
+Qed.
+
+Lemma map_idx_F2 : forall {A B} (R : A -> B -> Prop) (mu : A -> nat) (f : nat * A -> A) l vs s,
+  Forall2 R l vs -> (forall i x v, R x v -> R (f (i, x)) v /\ (mu (f (i, x)) <= mu x)%nat) ->
+  Forall2 R (map f (combine (seq s (length l)) l)) vs /\
+  (nat_sum (map mu (map f (combine (seq s (length l)) l))) <= nat_sum (map mu l))%nat.
+Proof.
+  intros A B R mu f l vs s H Hf. revert s. induction H as [|x v l vs Hx _ IH]; intros s.
+  - cbn. split; [constructor|lia].
+  - cbn [length seq combine map]. destruct (IH (S s)) as [I1 I2]. destruct (Hf s x v Hx) as [F1 F2].
+    rewrite !nat_sum_cons. split; [constructor; assumption|lia].
+Qed.
+
+Lemma with_kvp_same : forall {X} (s : mset X), with_kvp s (m_kvp s) = s.
+Proof. intros X []. reflexivity. Qed.
+
+Section MSetC.
+  Variables (q : bool) (d : nat).
+  Notation CM := (AM q d).
+  Notation C := (opsA q d).
+  Variable PC : ast -> Z -> Prop.
+  Hypothesis HPC : forall x v, PC x v -> astep_ok (AM q d) (fun t => PC t v) v x.
+
+  Lemma pb : forall x v, PC x v ->
+    PC (fst (k_bnd C x)) v /\ (muA (fst (k_bnd C x)) <= muA x)%nat /\ inr (snd (k_bnd C x)) v /\
+    k_bnd C (fst (k_bnd C x)) = (fst (k_bnd C x), snd (k_bnd C x)).
+  Proof. intros x v H. exact (p_bnd CM PC HPC x v H). Qed.
+
+  Lemma pt : forall x v, PC x v ->
+    PC (fst (k_tig C x)) v /\ (snd (k_tig C x) = true -> (muA (fst (k_tig C x)) < muA x)%nat) /\
+    (snd (k_tig C x) = false -> (muA (fst (k_tig C x)) <= muA x)%nat /\
+                                k_bnd C (fst (k_tig C x)) = (fst (k_tig C x), (v, v)) /\ snd (k_bnd C x) = (v, v)).
+  Proof. intros x v H. exact (p_tig CM PC HPC x v H). Qed.
+
+  Lemma thread_entry : forall l vs, Forall2 PC l vs ->
+    Forall2 PC (fst (thread (k_bnd C) l)) vs /\
+    (nat_sum (map muA (fst (thread (k_bnd C) l))) <= nat_sum (map muA l))%nat /\
+    Forall2 inr (snd (thread (k_bnd C) l)) vs /\
+    thread (k_bnd C) (fst (thread (k_bnd C) l)) = thread (k_bnd C) l.
+  Proof.
+    induction 1 as [|x v l vs Hx _ IH].
+    - cbn [thread fst snd map nat_sum fold_right]. repeat split; try constructor.
+    - destruct IH as (I1 & I2 & I3 & I4). destruct (pb x v Hx) as (B1 & B2 & B3 & B4).
+      cbn [thread]. cbv zeta. cbn [fst snd map]. rewrite !nat_sum_cons.
+      split; [constructor; assumption|]. split; [lia|]. split; [constructor; assumption|].
+      cbn [thread]. cbv zeta. rewrite B4. cbn [fst snd]. rewrite I4. reflexivity.
+  Qed.
+
+  Lemma thread2_spec : forall e evs, Forall2 (Forall2 PC) e evs ->
+    Forall2 (Forall2 PC) (fst (thread (thread (k_bnd C)) e)) evs /\
+    (mu2 (fst (thread (thread (k_bnd C)) e)) <= mu2 e)%nat /\
+    Forall2 (Forall2 inr) (snd (thread (thread (k_bnd C)) e)) evs /\
+    thread (thread (k_bnd C)) (fst (thread (thread (k_bnd C)) e)) = thread (thread (k_bnd C)) e.
+  Proof.
+    induction 1 as [|row vrow e evs Hrow _ IH].
+    - cbn. repeat split; try constructor.
+    - destruct IH as (I1 & I2 & I3 & I4). destruct (thread_entry row vrow Hrow) as (B1 & B2 & B3 & B4).
+      cbn [thread]. cbv zeta. cbn [fst snd]. unfold mu2 in *. cbn [map]. rewrite !nat_sum_cons.
+      split; [constructor; assumption|]. split; [lia|]. split; [constructor; assumption|].
+      cbn [thread]. cbv zeta. rewrite B4. cbn [fst snd]. rewrite I4. reflexivity.
+  Qed.
+
+  (* ---------------------------------------------------------------- the values *)
+  Variables (rem ins : list Z) (cnt : list (list nat)) (asg : list (nat * nat)) (kvs : list Z) (evs : list (list Z)).
+  Hypothesis Hd1 : length evs = length rem.
+  Hypothesis Hd2 : Forall (fun r => length r = length ins) evs.
+  Notation CH := (ch rem ins asg).
+  Notation nn := (length rem).
+  Notation mm' := (length ins).
+  Definition ev (p : nat * nat) : Z := mcv evs (fst p) (snd p).
+  Definition Wv : Z := zsum (map ev CH).
+  Definition UCv : Z := UCc rem ins asg.
+  Definition Vv : Z := Wv + zsum kvs + UCv.
+
+  Lemma bracket_W : forall (R : list (list zr)), Forall2 (Forall2 inr) R evs ->
+    sum_smallest (Nat.min nn mm') (map (fun row => zmin_list (map fst row)) R) <= Wv /\
+    Wv <= sum_largest (Nat.min nn mm') (map (fun row => zmax_list (map snd row)) R).
+  Proof.
+    intros R HR. destruct (ch_valid rem ins asg) as (N1 & N2 & Hr & L). rewrite <- L. unfold Wv.
+    assert (LR : length R = nn) by (rewrite (Forall2_length' _ _ _ HR); exact Hd1).
+    assert (Hent : forall p, In p CH ->
+              inr (nth (snd p) (nth (fst p) R []) (0, 0)) (ev p) /\ (snd p < length (nth (fst p) R []))%nat).
+    { intros p Hp. destruct (Hr p Hp) as [A B].
+      assert (Lp : (fst p < length R)%nat) by lia.
+      pose proof (F2_nth _ R evs (fst p) [] [] HR Lp) as Hrow.
+      assert (Lv : length (nth (fst p) evs []) = mm').
+      { rewrite Forall_forall in Hd2. apply Hd2. apply nth_In. lia. }
+      assert (Lrow : length (nth (fst p) R []) = mm') by (pose proof (Forall2_length' _ _ _ Hrow) as L0; cbv beta in L0; lia).
+      split; [|lia]. unfold ev, mcv. apply (F2_nth _ _ _ (snd p) (0, 0) 0 Hrow). apply Nat.lt_le_trans with mm'; [exact B|]. apply Nat.eq_le_incl. symmetry. exact Lrow. }
+    split.
+    - apply (bracket_lo _ CH fst ev N1). intros p Hp. destruct (Hr p Hp) as [A B]. destruct (Hent p Hp) as [[E1 _] E2].
+      split; [rewrite map_length; apply Nat.lt_le_trans with nn; [exact A|apply Nat.eq_le_incl; symmetry; exact LR]|].
+      erewrite (nth_map_lt _ R (fst p) 0 []) by (apply Nat.lt_le_trans with nn; [exact A|apply Nat.eq_le_incl; symmetry; exact LR]).
+      eapply Z.le_trans; [|exact E1]. apply zmin_list_le. apply in_map. apply nth_In. exact E2.
+    - apply (bracket_hi _ CH fst ev N1). intros p Hp. destruct (Hr p Hp) as [A B]. destruct (Hent p Hp) as [[_ E1] E2].
+      split; [rewrite map_length; apply Nat.lt_le_trans with nn; [exact A|apply Nat.eq_le_incl; symmetry; exact LR]|].
+      erewrite (nth_map_lt _ R (fst p) 0 []) by (apply Nat.lt_le_trans with nn; [exact A|apply Nat.eq_le_incl; symmetry; exact LR]).
+      eapply Z.le_trans; [exact E1|]. apply zmax_list_ge. apply in_map. apply nth_In. exact E2.
+  Qed.
+
+  (* the nodes the matching leaves unmatched: before the matching is known, the cheapest / costliest |n - m| of the larger side *)
+  Definition lpr : zr :=
+    if Nat.ltb mm' nn then (sum_smallest (nn - mm') rem, sum_largest (nn - mm') rem)
+    else if Nat.ltb nn mm' then (sum_smallest (mm' - nn) ins, sum_largest (mm' - nn) ins)
+    else (0, 0).
+
+  Lemma lpr_sound : inr lpr UCv.
+  Proof.
+    destruct (ch_valid rem ins asg) as (N1 & N2 & Hr & L).
+    assert (R1 : forall i, In i (map fst CH) -> (i < nn)%nat) by (intros i Hi; apply in_map_iff in Hi; destruct Hi as (p & <- & Hp); apply (Hr p Hp)).
+    assert (R2 : forall i, In i (map snd CH) -> (i < mm')%nat) by (intros i Hi; apply in_map_iff in Hi; destruct Hi as (p & <- & Hp); apply (Hr p Hp)).
+    pose proof (sel_perm rem (map fst CH) N1 R1) as P1. pose proof (sel_perm ins (map snd CH) N2 R2) as P2.
+    apply Permutation_sym in P1. apply Permutation_sym in P2.
+    pose proof (Permutation_sym (Permutation_trans (Permutation_app_comm _ _) P1)) as Q1.
+    pose proof (Permutation_sym (Permutation_trans (Permutation_app_comm _ _) P2)) as Q2.
+    pose proof (ss_le_sub _ _ _ Q1) as A1. pose proof (sl_ge_sub _ _ _ Q1) as A2.
+    pose proof (ss_le_sub _ _ _ Q2) as B1. pose proof (sl_ge_sub _ _ _ Q2) as B2.
+    rewrite map_length, (sel_rest_length nn _ N1 R1), map_length in A1, A2.
+    rewrite map_length, (sel_rest_length mm' _ N2 R2), map_length in B1, B2.
+    fold (unm (map fst CH) nn) in A1, A2. fold (unm (map snd CH) mm') in B1, B2.
+    unfold inr, lpr, UCv, UCc.
+    destruct (Nat.ltb_spec mm' nn) as [H|H].
+    - rewrite (unm_nil (map snd CH) mm' N2 R2) by (rewrite map_length; lia). cbn [map zsum fold_right fst snd].
+      replace (nn - mm')%nat with (nn - length CH)%nat by lia. lia.
+    - destruct (Nat.ltb_spec nn mm') as [H'|H'].
+      + rewrite (unm_nil (map fst CH) nn N1 R1) by (rewrite map_length; lia). cbn [map zsum fold_right fst snd].
+        replace (mm' - nn)%nat with (mm' - length CH)%nat by lia. lia.
+      + rewrite (unm_nil (map fst CH) nn N1 R1) by (rewrite map_length; lia).
+        rewrite (unm_nil (map snd CH) mm' N2 R2) by (rewrite map_length; lia). simpl. lia.
+  Qed.
+
+  (* ---------------------------------------------------------------- the matrix of edges *)
+  Notation EOKA := (fun e : list (list ast) => Forall2 (Forall2 PC) e evs).
+
+  Lemma e_dims : forall e, EOKA e -> length e = nn /\ forall i, (i < nn)%nat -> length (nth i e []) = mm'.
+  Proof.
+    intros e H. assert (L : length e = nn) by (rewrite (Forall2_length' _ _ _ H); exact Hd1). split; [exact L|].
+    intros i Hi. assert (Li : (i < length e)%nat) by lia.
+    pose proof (F2_nth _ e evs i [] [] H Li) as Hrow. rewrite (Forall2_length' _ _ _ Hrow).
+    rewrite Forall_forall in Hd2. apply Hd2. apply nth_In. lia.
+  Qed.
+
+  Lemma e_get : forall e i j x, EOKA e -> mget e i j = Some x -> PC x (mcv evs i j).
+  Proof. intros e i j x H Hx. rewrite mget_nth in Hx. apply (matrix_entry PC e evs i j x H Hx). Qed.
+
+  Lemma e_set2 : forall e i j x x', EOKA e -> mget e i j = Some x -> PC x' (mcv evs i j) -> EOKA (set2 e i j x').
+  Proof.
+    intros e i j x x' H Hx Hx'. rewrite mget_nth in Hx. pose proof (nth_error_row e i j x Hx) as Hr.
+    destruct (Forall2_nth_error _ _ _ _ _ H Hr) as (vrow & Er & Hrow).
+    destruct (Forall2_nth_error _ _ _ _ _ Hrow Hx) as (v & Ev & Hv).
+    unfold mcv in Hx'. rewrite (nth_nth_error evs i vrow [] Er), (nth_nth_error vrow j v 0 Ev) in Hx'.
+    unfold set2. apply (Forall2_set_nth _ _ _ _ _ _ H Er). apply (Forall2_set_nth _ _ _ _ _ _ Hrow Ev Hx').
+  Qed.
+
+  Lemma amatched_ext : forall mt e e', NoDup (map fst mt) ->
+    (forall p, In p mt -> mget e (fst p) (snd p) = mget e' (fst p) (snd p)) ->
+    snd (amt_matched C e mt) = snd (amt_matched C e' mt).
+  Proof.
+    induction mt as [|p rest IH]; intros e e' Hn Hag; [reflexivity|].
+    cbn [amt_matched]. rewrite <- (Hag p (or_introl eq_refl)). cbn [map] in Hn. inversion Hn as [|? ? Hnot Hn']. subst.
+    destruct (mget e (fst p) (snd p)) as [x|] eqn:Ex.
+    - cbv zeta. destruct (snd (k_tig C x)); [reflexivity|]. apply IH; [exact Hn'|].
+      intros p' Hp'. pose proof (Hag p' (or_intror Hp')) as Hp.
+      assert (Ne : fst p' <> fst p) by (intros Q; apply Hnot; rewrite <- Q; apply in_map; exact Hp').
+      destruct (mget_some_lt _ _ _ _ Ex) as [L1 L2].
+      assert (Ex' : mget e' (fst p) (snd p) = Some x) by (rewrite <- (Hag p (or_introl eq_refl)); exact Ex).
+      destruct (mget_some_lt _ _ _ _ Ex') as [L1' L2'].
+      rewrite !mget_set2 by assumption. destruct (Nat.eqb_spec (fst p') (fst p)) as [Q|_]; [contradiction|]. cbn [andb]. exact Hp.
+    - apply IH; [exact Hn'|]. intros p' Hp'. apply Hag. right. exact Hp'.
+  Qed.
+
+  Lemma aread_spec : forall mt e, EOKA e -> NoDup (map fst mt) ->
+    (forall p, In p mt -> (fst p < nn)%nat /\ (snd p < mm')%nat) ->
+    EOKA (fst (aread_matched C e mt)) /\ (mu2 (fst (aread_matched C e mt)) <= mu2 e)%nat /\
+    inr (snd (aread_matched C e mt)) (zsum (map ev mt)) /\
+    aread_matched C (fst (aread_matched C e mt)) mt = (fst (aread_matched C e mt), snd (aread_matched C e mt)) /\
+    (forall i j, ~ In i (map fst mt) -> mget (fst (aread_matched C e mt)) i j = mget e i j) /\
+    (snd (amt_matched C (fst (aread_matched C e mt)) mt) = false ->
+     snd (aread_matched C e mt) = (zsum (map ev mt), zsum (map ev mt))).
+  Proof.
+    induction mt as [|p rest IH]; intros e He Hn Hr.
+    - cbn [aread_matched fst snd map zsum fold_right]. unfold inr. cbn [fst snd]. repeat split; try assumption; lia.
+    - destruct (e_dims e He) as [Le Lrow]. destruct (Hr p (or_introl eq_refl)) as [A B].
+      destruct (mget_lt_some e (fst p) (snd p) ltac:(lia) ltac:(rewrite (Lrow _ A); exact B)) as [x Ex].
+      cbn [aread_matched]. rewrite Ex. cbv zeta.
+      pose proof (e_get e _ _ x He Ex) as Px. fold (ev p) in Px.
+      destruct (pb x _ Px) as (B1 & B2 & B3 & B4). destruct (pb _ _ B1) as (C1 & C2 & C3 & C4).
+      set (x2 := fst (k_bnd C (fst (k_bnd C x)))) in *.
+      assert (He1 : EOKA (set2 e (fst p) (snd p) x2)) by (apply (e_set2 e _ _ x x2 He Ex); exact C1).
+      cbn [map] in Hn. inversion Hn as [|? ? Hnot Hn']. subst.
+      destruct (IH _ He1 Hn' (fun p0 Hp0 => Hr p0 (or_intror Hp0))) as (I1 & I2 & I3 & I4 & I5 & I6).
+      set (r := aread_matched C (set2 e (fst p) (snd p) x2) rest) in *.
+      cbn [fst snd].
+      assert (Ex' : nth_error (nth (fst p) e []) (snd p) = Some x) by (rewrite <- mget_nth; exact Ex).
+      split; [exact I1|]. split; [pose proof (mu2_set2_le e _ _ x x2 Ex' ltac:(lia)); lia|].
+      split; [unfold inr in *; cbn [map zsum fold_right fst snd]; fold (zsum (map ev rest)); lia|].
+      assert (G : mget (fst r) (fst p) (snd p) = Some x2).
+      { rewrite (I5 _ _ Hnot). rewrite mget_set2 by (try lia; rewrite (Lrow _ A); exact B). rewrite !Nat.eqb_refl. reflexivity. }
+      split.
+      + cbn [aread_matched]. rewrite G. cbv zeta.
+        assert (E2 : k_bnd C x2 = (x2, snd (k_bnd C x))).
+        { rewrite C4. rewrite B4. reflexivity. }
+        rewrite E2. cbn [fst snd]. rewrite E2. cbn [fst snd]. rewrite (set2_same _ _ _ _ G). rewrite I4. cbn [fst snd].
+        rewrite B4. reflexivity.
+      + split.
+        * intros i j Hij. cbn [map] in Hij. rewrite (I5 i j ltac:(intros Q; apply Hij; right; exact Q)).
+          rewrite mget_set2 by (try lia; rewrite (Lrow _ A); exact B).
+          destruct (Nat.eqb_spec i (fst p)) as [->|Ne]; [exfalso; apply Hij; left; reflexivity|reflexivity].
+        * cbn [amt_matched]. rewrite G. cbv zeta. intros Hf.
+          assert (E2 : k_bnd C x2 = (x2, snd (k_bnd C x))) by (rewrite C4; rewrite B4; reflexivity).
+          destruct (pt x2 _ C1) as (T1 & _ & T3).
+          destruct (snd (k_tig C x2)) eqn:Et; [discriminate|]. destruct (T3 eq_refl) as (_ & _ & T5).
+          rewrite E2 in T5. cbn [snd] in T5.
+          assert (Hrest : snd (amt_matched C (fst r) rest) = false).
+          { rewrite <- Hf. apply amatched_ext; [exact Hn'|]. intros p' Hp'.
+            assert (Ne : fst p' <> fst p) by (intros Q; apply Hnot; rewrite <- Q; apply in_map; exact Hp').
+            destruct (mget_some_lt _ _ _ _ G) as [L1 L2]. rewrite mget_set2 by assumption.
+            destruct (Nat.eqb_spec (fst p') (fst p)) as [Q|_]; [contradiction|]. reflexivity. }
+          rewrite (I6 Hrest). cbn [map zsum fold_right fst snd]. fold (zsum (map ev rest)).
+          rewrite B4 in C4. cbn [snd] in *. rewrite T5. cbn [fst snd]. f_equal.
+          -- rewrite B4. cbn [snd]. rewrite T5. reflexivity.
+  Qed.
+
+  (* ---------------------------------------------------------------- the invariant *)
+  Record MI (s : mset ast) : Prop := {
+    mi_rem : m_rem s = rem; mi_ins : m_ins s = ins; mi_cnt : m_counts s = cnt; mi_asg : m_asg s = asg;
+    mi_kvp : Forall2 PC (m_kvp s) kvs;
+    mi_edges : EOKA (m_edges s);
+    mi_match : m_match s = None \/ m_match s = Some CH;
+    mi_memo : m_memo s = None \/ m_memo s = Some (Wv, Wv) }.
+
+  Definition mmu (s : mset ast) : nat :=
+    (nat_sum (map muA (m_kvp s)) + mu2 (m_edges s) + (if m_distinct s then O else 1) +
+     match m_match s with Some _ => O | None => 1 end)%nat.
+
+  Lemma mi_edges_upd : forall s e, MI s -> EOKA e -> MI (with_edges s e).
+  Proof. intros s e [] He. constructor; cbn [with_edges m_rem m_ins m_counts m_asg m_kvp m_edges m_match m_memo]; assumption. Qed.
+  Lemma mi_kvp_upd : forall s l, MI s -> Forall2 PC l kvs -> MI (with_kvp s l).
+  Proof. intros s l [] Hl. constructor; cbn [with_kvp m_rem m_ins m_counts m_asg m_kvp m_edges m_match m_memo]; assumption. Qed.
+  Lemma mi_memo_upd : forall s, MI s -> MI (with_memo s (Wv, Wv)).
+  Proof. intros s []. constructor; cbn [with_memo m_rem m_ins m_counts m_asg m_kvp m_edges m_match m_memo]; try assumption. right. reflexivity. Qed.
+  Lemma mi_match_upd : forall s, MI s -> MI (with_match s CH).
+  Proof. intros s []. constructor; cbn [with_match m_rem m_ins m_counts m_asg m_kvp m_edges m_match m_memo]; try assumption. right. reflexivity. Qed.
+  Lemma mi_distinct_upd : forall s, MI s -> MI (with_distinct s).
+  Proof. intros s []. constructor; cbn [with_distinct m_rem m_ins m_counts m_asg m_kvp m_edges m_match m_memo]; assumption. Qed.
+
+  Lemma mi_mn : forall s, MI s -> mn s = nn /\ mm s = mm'.
+  Proof. intros s I. unfold mn, mm. rewrite (mi_rem s I), (mi_ins s I). split; reflexivity. Qed.
+  Lemma mi_empty : forall s, MI s -> m_empty s = (Nat.eqb nn 0 || Nat.eqb mm' 0).
+  Proof. intros s I. unfold m_empty. destruct (mi_mn s I) as [-> ->]. reflexivity. Qed.
+  Lemma mi_chosen : forall s, MI s -> chosen s = CH.
+  Proof. intros s I. unfold chosen, ch. rewrite (mi_empty s I). destruct (mi_mn s I) as [-> ->]. rewrite (mi_asg s I). reflexivity. Qed.
+
+  Lemma ch_rows : NoDup (map fst CH) /\ (forall p, In p CH -> (fst p < nn)%nat /\ (snd p < mm')%nat).
+  Proof. destruct (ch_valid rem ins asg) as (N1 & _ & Hr & _). split; assumption. Qed.
+
+  Lemma def_point : forall (r : zr) v, inr r v -> zdefb r = true -> r = (v, v).
+  Proof. intros [lo hi] v [A B] D. unfold zdefb in D. cbn [fst snd] in *. apply Z.eqb_eq in D. f_equal; lia. Qed.
+
+  Lemma empty_W : (Nat.eqb nn 0 || Nat.eqb mm' 0) = true -> Wv = 0.
+  Proof. intros E. unfold Wv, ch. rewrite E. reflexivity. Qed.
+
+  (* WeightedBipartiteMatcher.bounds() *)
+  Definition ABspec (s : mset ast) (q : mset ast * zr) : Prop :=
+    MI (fst q) /\ (mu2 (m_edges (fst q)) <= mu2 (m_edges s))%nat /\ inr (snd q) Wv /\
+    amt_bounds C (fst q) = (fst q, snd q) /\
+    m_match (fst q) = m_match s /\ m_kvp (fst q) = m_kvp s /\ m_distinct (fst q) = m_distinct s /\
+    (zdefb (snd q) = true -> m_memo (fst q) = Some (Wv, Wv)) /\
+    (m_match s = Some CH -> zdefb (snd q) = false -> snd (amt_matched C (m_edges (fst q)) CH) = true).
+
+  Lemma zdefb_point : forall v, zdefb (v, v) = true.
+  Proof. intros v. unfold zdefb. cbn [fst snd]. apply Z.eqb_refl. Qed.
+
+  Lemma amt_bounds_spec : forall s, MI s -> ABspec s (amt_bounds C s).
+  Proof.
+    intros s I.
+    assert (Hmemo : forall u, m_memo u = Some (Wv, Wv) -> amt_bounds C u = (u, (Wv, Wv))).
+    { intros u E. unfold amt_bounds. rewrite E. reflexivity. }
+    assert (Hfin : forall u, MI u -> (mu2 (m_edges u) <= mu2 (m_edges s))%nat -> m_match u = m_match s -> m_kvp u = m_kvp s ->
+                   m_distinct u = m_distinct s -> amt_bounds C s = (with_memo u (Wv, Wv), (Wv, Wv)) -> ABspec s (amt_bounds C s)).
+    { intros u Iu Mu E1 E2 E3 E. rewrite E. unfold ABspec. cbn [fst snd].
+      split; [apply mi_memo_upd; exact Iu|]. split; [exact Mu|]. split; [unfold inr; cbn [fst snd]; lia|].
+      split; [apply Hmemo; reflexivity|]. split; [exact E1|]. split; [exact E2|]. split; [exact E3|].
+      split; [reflexivity|]. intros _ D. rewrite zdefb_point in D. discriminate. }
+    destruct (m_memo s) as [r|] eqn:Em.
+    - destruct (mi_memo s I) as [E|E]; [congruence|].
+      rewrite (Hmemo s E). unfold ABspec. cbn [fst snd]. split; [exact I|]. split; [lia|]. split; [unfold inr; cbn [fst snd]; lia|].
+      split; [apply Hmemo; exact E|]. split; [reflexivity|]. split; [reflexivity|]. split; [reflexivity|].
+      split; [intros _; exact E|]. intros _ D. rewrite zdefb_point in D. discriminate.
+    - pose proof (mi_empty s I) as Ee. destruct (Nat.eqb nn 0 || Nat.eqb mm' 0) eqn:E0.
+      + pose proof (empty_W E0) as W0.
+        apply (Hfin s I (le_n _) eq_refl eq_refl eq_refl). unfold amt_bounds. rewrite Em, Ee, W0. reflexivity.
+      + destruct (mi_mn s I) as [En Em']. destruct (mi_match s I) as [E|E].
+        * destruct (thread2_spec _ _ (mi_edges s I)) as (A1 & A2 & A3 & A4).
+          set (t1 := thread (thread (k_bnd C)) (m_edges s)) in *.
+          destruct (bracket_W (snd t1) A3) as [L1 L2].
+          set (r := (sum_smallest (Nat.min nn mm') (map (fun row => zmin_list (map fst row)) (snd t1)),
+                     sum_largest (Nat.min nn mm') (map (fun row => zmax_list (map snd row)) (snd t1)))) in *.
+          assert (Hr : inr r Wv) by (unfold inr, r; cbn [fst snd]; lia).
+          assert (I1 : MI (with_edges s (fst t1))) by (apply mi_edges_upd; assumption).
+          assert (Eq : forall u, m_memo u = None -> m_empty u = false -> m_match u = None -> mn u = nn -> mm u = mm' ->
+                       thread (thread (k_bnd C)) (m_edges u) = t1 ->
+                       amt_bounds C u = if zdefb r then (with_memo (with_edges u (fst t1)) r, r) else (with_edges u (fst t1), r)).
+          { intros u U1 U2 U3 U4 U5 U6. unfold amt_bounds. rewrite U1, U2, U3. cbv zeta. rewrite U4, U5, U6, A4. reflexivity. }
+          pose proof (Eq s Em ltac:(rewrite Ee; reflexivity) E En Em' eq_refl) as Es.
+          destruct (zdefb r) eqn:D.
+          -- rewrite (def_point r Wv Hr D) in Es. apply (Hfin _ I1 A2 eq_refl eq_refl eq_refl Es).
+          -- rewrite Es. unfold ABspec. cbn [fst snd]. split; [exact I1|]. split; [exact A2|]. split; [exact Hr|]. split.
+             { rewrite (Eq (with_edges s (fst t1)) Em ltac:(change (m_empty (with_edges s (fst t1))) with (m_empty s); rewrite Ee; reflexivity)
+                         E En Em' A4).
+               reflexivity. }
+             split; [reflexivity|]. split; [reflexivity|]. split; [reflexivity|].
+             split; [intros D'; rewrite D in D'; discriminate|]. intros E'. congruence.
+        * destruct ch_rows as [N1 Hr]. destruct (aread_spec CH _ (mi_edges s I) N1 Hr) as (A1 & A2 & A3 & A4 & _ & A6).
+          set (p := aread_matched C (m_edges s) CH) in *. fold Wv in A3, A6.
+          assert (I1 : MI (with_edges s (fst p))) by (apply mi_edges_upd; assumption).
+          assert (Eq : forall u, m_memo u = None -> m_empty u = false -> m_match u = Some CH ->
+                       aread_matched C (m_edges u) CH = (fst p, snd p) ->
+                       amt_bounds C u = if zdefb (snd p) then (with_memo (with_edges u (fst p)) (snd p), snd p) else (with_edges u (fst p), snd p)).
+          { intros u U1 U2 U3 U4. unfold amt_bounds. rewrite U1, U2, U3. cbv zeta. rewrite U4. reflexivity. }
+          pose proof (Eq s Em ltac:(rewrite Ee; reflexivity) E ltac:(fold p; destruct p; reflexivity)) as Es.
+          destruct (zdefb (snd p)) eqn:D.
+          -- rewrite (def_point _ Wv A3 D) in Es. apply (Hfin _ I1 A2 eq_refl eq_refl eq_refl Es).
+          -- rewrite Es. unfold ABspec. cbn [fst snd]. split; [exact I1|]. split; [exact A2|]. split; [exact A3|]. split.
+             { rewrite (Eq (with_edges s (fst p)) Em ltac:(change (m_empty (with_edges s (fst p))) with (m_empty s); rewrite Ee; reflexivity)
+                         E A4).
+               reflexivity. }
+             split; [reflexivity|]. split; [reflexivity|]. split; [reflexivity|].
+             split; [intros D'; rewrite D in D'; discriminate|]. intros _ _.
+             cbn [with_edges m_edges]. destruct (snd (amt_matched C (fst p) CH)) eqn:Ef; [reflexivity|]. exfalso.
+             rewrite (A6 eq_refl) in D. rewrite zdefb_point in D. discriminate.
+  Qed.
+
+  Lemma amt_bounds_kvp : forall s l,
+    amt_bounds C (with_kvp s l) = (with_kvp (fst (amt_bounds C s)) l, snd (amt_bounds C s)).
+  Proof.
+    intros s l. unfold amt_bounds. cbn [with_kvp m_memo]. destruct (m_memo s); [reflexivity|].
+    change (m_empty (with_kvp s l)) with (m_empty s). destruct (m_empty s); [reflexivity|].
+    cbn [with_kvp m_match m_edges]. destruct (m_match s); cbv zeta;
+      change (mn (with_kvp s l)) with (mn s); change (mm (with_kvp s l)) with (mm s); destruct (zdefb _); reflexivity.
+  Qed.
+
+  Lemma uc_eq : forall s, MI s -> unmatched_cost s CH = UCv.
+  Proof. intros s I. unfold unmatched_cost, UCv, UCc, unm, mn, mm. rewrite (mi_rem s I), (mi_ins s I). reflexivity. Qed.
+
+  (* what MultiSetEdit.bounds() adds for the nodes the matching leaves (or will leave) unmatched *)
+  Definition tailr (s : mset ast) : zr :=
+    match m_match s with
+    | Some mt => zconst (unmatched_cost s mt)
+    | None => if Nat.ltb (mm s) (mn s) then (sum_smallest (mn s - mm s) (m_rem s), sum_largest (mn s - mm s) (m_rem s))
+              else if Nat.ltb (mn s) (mm s) then (sum_smallest (mm s - mn s) (m_ins s), sum_largest (mm s - mn s) (m_ins s))
+              else (0, 0)
+    end.
+
+  Lemma tailr_sound : forall s, MI s -> inr (tailr s) UCv /\ (m_match s = Some CH -> tailr s = (UCv, UCv)).
+  Proof.
+    intros s I. unfold tailr. destruct (mi_match s I) as [E|E]; rewrite E.
+    - split; [|discriminate]. destruct (mi_mn s I) as [-> ->]. rewrite (mi_rem s I), (mi_ins s I). exact lpr_sound.
+    - rewrite (uc_eq s I). unfold zconst, inr. cbn [fst snd]. split; [lia|reflexivity].
+  Qed.
+
+  Lemma ams_bounds_eq : forall s,
+    ams_bounds C s =
+    (with_kvp (fst (amt_bounds C s)) (fst (thread (k_bnd C) (m_kvp (fst (amt_bounds C s))))),
+     zr_add (zr_add (snd (amt_bounds C s)) (zr_sum (snd (thread (k_bnd C) (m_kvp (fst (amt_bounds C s)))))))
+            (tailr (with_kvp (fst (amt_bounds C s)) (fst (thread (k_bnd C) (m_kvp (fst (amt_bounds C s)))))))).
+  Proof.
+    intros s. unfold ams_bounds, tailr. cbv zeta. f_equal.
+    destruct (m_match _); [reflexivity|]. destruct (Nat.ltb _ _); [reflexivity|]. destruct (Nat.ltb _ _); [reflexivity|].
+    unfold zr_add. cbn [fst snd]. rewrite !Z.add_0_r. destruct (snd (amt_bounds C s)); destruct (zr_sum _); reflexivity.
+  Qed.
+
+  (* MultiSetEdit.bounds() *)
+  Lemma ams_bounds_spec : forall s, MI s ->
+    MI (fst (ams_bounds C s)) /\ (mmu (fst (ams_bounds C s)) <= mmu s)%nat /\ inr (snd (ams_bounds C s)) Vv /\
+    ams_bounds C (fst (ams_bounds C s)) = (fst (ams_bounds C s), snd (ams_bounds C s)) /\
+    m_match (fst (ams_bounds C s)) = m_match s /\ m_distinct (fst (ams_bounds C s)) = m_distinct s.
+  Proof.
+    intros s I. rewrite ams_bounds_eq. cbn [fst snd].
+    destruct (amt_bounds_spec s I) as (A1 & A2 & A3 & A4 & A5 & A6 & A7 & _ & _).
+    set (s1 := fst (amt_bounds C s)) in *. set (r1 := snd (amt_bounds C s)) in *.
+    destruct (thread_bnd_spec q d PC HPC _ _ (mi_kvp s1 A1)) as (B1 & B2 & B3 & B4).
+    set (t := thread (k_bnd C) (m_kvp s1)) in *.
+    assert (I2 : MI (with_kvp s1 (fst t))) by (apply mi_kvp_upd; assumption).
+    destruct (tailr_sound _ I2) as [T1 _].
+    split; [exact I2|]. split.
+    { unfold mmu. cbn [with_kvp m_kvp m_edges m_distinct m_match]. rewrite A5, A7, A6 in *. lia. }
+    split.
+    { unfold inr, Vv, zr_add in *. cbn [fst snd]. lia. }
+    split; [|split; [exact A5|exact A7]].
+    rewrite ams_bounds_eq. rewrite amt_bounds_kvp. fold s1. rewrite A4. cbn [fst snd with_kvp m_kvp]. fold t. rewrite B4. fold t.
+    reflexivity.
+  Qed.
+
+  (* ---------------------------------------------------------------- make_distinct, the matching, the undecorated tighten *)
+  Lemma aiter_spec : forall k x v, PC x v -> PC (aiter_tb C k x) v /\ (muA (aiter_tb C k x) <= muA x)%nat.
+  Proof.
+    induction k as [|k IH]; intros x v H; cbn [aiter_tb]; [split; [exact H|lia]|].
+    destruct (pt x v H) as (T1 & T2 & T3). destruct (pb _ v T1) as (B1 & B2 & _).
+    assert (M : (muA (fst (k_tig C x)) <= muA x)%nat).
+    { destruct (snd (k_tig C x)); [specialize (T2 eq_refl); lia|apply (T3 eq_refl)]. }
+    destruct (IH _ v B1) as [I1 I2]. split; [exact I1|lia].
+  Qed.
+
+  Lemma amd_spec : forall e, EOKA e -> EOKA (amd_edges C cnt e) /\ (mu2 (amd_edges C cnt e) <= mu2 e)%nat.
+  Proof.
+    intros e He. unfold amd_edges, mu2.
+    apply (map_idx_F2 (Forall2 PC) (fun row => nat_sum (map muA row)) _ e evs 0%nat He).
+    intros i row vrow Hrow. cbn [fst snd].
+    apply (map_idx_F2 PC muA _ row vrow 0%nat Hrow).
+    intros j x v Hx. cbn [fst snd]. destruct (pb x v Hx) as (B1 & B2 & _).
+    destruct (aiter_spec (nth j (nth i cnt []) 0%nat) _ v B1) as [A1 A2]. split; [exact A1|lia].
+  Qed.
+
+  Lemma empty_CH : (Nat.eqb nn 0 || Nat.eqb mm' 0) = true -> CH = [].
+  Proof. intros E. unfold ch. rewrite E. reflexivity. Qed.
+
+  (* the `matching` property *)
+  Lemma amt_force_spec : forall s, MI s ->
+    MI (amt_force C s) /\ m_match (amt_force C s) = Some CH /\ m_kvp (amt_force C s) = m_kvp s /\
+    m_memo (amt_force C s) = m_memo s /\
+    (mmu (amt_force C s) <= mmu s)%nat /\ (m_match s = None -> (mmu (amt_force C s) < mmu s)%nat).
+  Proof.
+    intros s I. unfold amt_force. destruct (mi_match s I) as [E|E]; rewrite E.
+    2:{ split; [exact I|]. split; [exact E|]. split; [reflexivity|]. split; [reflexivity|]. split; [lia|]. intros Q. congruence. }
+    rewrite (mi_empty s I). destruct (Nat.eqb nn 0 || Nat.eqb mm' 0) eqn:E0.
+    - rewrite <- (empty_CH E0). split; [apply mi_match_upd; exact I|]. split; [reflexivity|]. split; [reflexivity|]. split; [reflexivity|].
+      unfold mmu. cbn [with_match m_kvp m_edges m_distinct m_match]. rewrite E. split; [lia|intros _; lia].
+    - cbv zeta.
+      set (s1 := if m_distinct s then s else with_distinct (with_edges s (amd_edges C (m_counts s) (m_edges s)))).
+      assert (H1 : MI s1 /\ (mu2 (m_edges s1) <= mu2 (m_edges s))%nat /\ m_kvp s1 = m_kvp s /\ m_memo s1 = m_memo s /\
+                   m_match s1 = m_match s /\ (m_distinct s = true -> m_distinct s1 = true) /\
+                   (m_distinct s = false -> m_distinct s1 = true)).
+      { unfold s1. destruct (m_distinct s) eqn:Ed.
+        - split; [exact I|]. split; [lia|]. split; [reflexivity|]. split; [reflexivity|]. split; [reflexivity|]. split; [intros _; exact Ed|intros Q; congruence].
+        - rewrite (mi_cnt s I). destruct (amd_spec _ (mi_edges s I)) as [A1 A2].
+          split; [apply mi_distinct_upd; apply mi_edges_upd; assumption|]. split; [exact A2|]. split; [reflexivity|]. split; [reflexivity|]. split; [reflexivity|]. split; [intros Q; congruence|intros _; reflexivity]. }
+      destruct H1 as (I1 & M1 & K1 & Me1 & Ma1 & D1 & D2).
+      destruct (thread2_spec _ _ (mi_edges s1 I1)) as (A1 & A2 & _ & _).
+      set (t := thread (thread (k_bnd C)) (m_edges s1)) in *.
+      assert (I2 : MI (with_edges s1 (fst t))) by (apply mi_edges_upd; assumption).
+      rewrite (mi_chosen _ I2).
+      split; [apply mi_match_upd; exact I2|]. split; [reflexivity|]. split; [exact K1|]. split; [exact Me1|].
+      unfold mmu. cbn [with_match with_edges m_kvp m_edges m_distinct m_match]. rewrite K1, E.
+      assert (Dd : ((if m_distinct s1 then 0 else 1) <= (if m_distinct s then 0 else 1))%nat).
+      { destruct (m_distinct s); [rewrite (D1 eq_refl); lia|rewrite (D2 eq_refl); lia]. }
+      split; [lia|intros _; lia].
+  Qed.
+
+  Lemma amatched_spec : forall mt e, EOKA e -> (forall p, In p mt -> (fst p < nn)%nat /\ (snd p < mm')%nat) ->
+    EOKA (fst (amt_matched C e mt)) /\ (mu2 (fst (amt_matched C e mt)) <= mu2 e)%nat /\
+    (snd (amt_matched C e mt) = true -> (mu2 (fst (amt_matched C e mt)) < mu2 e)%nat).
+  Proof.
+    induction mt as [|p rest IH]; intros e He Hr.
+    - cbn [amt_matched fst snd]. split; [exact He|]. split; [lia|discriminate].
+    - destruct (e_dims e He) as [Le Lrow]. destruct (Hr p (or_introl eq_refl)) as [A B].
+      destruct (mget_lt_some e (fst p) (snd p) ltac:(lia) ltac:(rewrite (Lrow _ A); exact B)) as [x Ex].
+      cbn [amt_matched]. rewrite Ex. cbv zeta.
+      pose proof (e_get e _ _ x He Ex) as Px. destruct (pt x _ Px) as (T1 & T2 & T3).
+      assert (Ex' : nth_error (nth (fst p) e []) (snd p) = Some x) by (rewrite <- mget_nth; exact Ex).
+      pose proof (mu2_set2 e (fst p) (snd p) x (fst (k_tig C x)) Ex') as Mu.
+      assert (He1 : EOKA (set2 e (fst p) (snd p) (fst (k_tig C x)))) by (apply (e_set2 e _ _ x _ He Ex); exact T1).
+      destruct (snd (k_tig C x)) eqn:Et.
+      + cbn [fst snd]. specialize (T2 eq_refl). split; [exact He1|]. split; [lia|intros _; lia].
+      + destruct (T3 eq_refl) as (M1 & _ & _).
+        destruct (IH _ He1 (fun p0 Hp0 => Hr p0 (or_intror Hp0))) as (I1 & I2 & I3).
+        split; [exact I1|]. split; [lia|]. intros Q. specialize (I3 Q). lia.
+  Qed.
+
+  (* the undecorated WeightedBipartiteMatcher.tighten_bounds() *)
+  Lemma amt_func_spec : forall s, MI s ->
+    (m_match s = Some CH -> snd (amt_matched C (m_edges s) CH) = true) ->
+    MI (amt_func C s) /\ (mmu (amt_func C s) < mmu s)%nat /\ m_kvp (amt_func C s) = m_kvp s.
+  Proof.
+    intros s I Hp. unfold amt_func. destruct (mi_match s I) as [E|E]; rewrite E.
+    - destruct (m_distinct s) eqn:Ed.
+      + destruct (amt_force_spec s I) as (F1 & _ & F3 & _ & _ & F6). split; [exact F1|]. split; [apply F6; exact E|exact F3].
+      + rewrite (mi_cnt s I). destruct (amd_spec _ (mi_edges s I)) as [A1 A2].
+        split; [apply mi_distinct_upd; apply mi_edges_upd; assumption|]. split; [|reflexivity].
+        unfold mmu. cbn [with_distinct with_edges m_kvp m_edges m_distinct m_match]. rewrite Ed. lia.
+    - destruct ch_rows as [_ Hr]. destruct (amatched_spec CH _ (mi_edges s I) Hr) as (A1 & A2 & A3).
+      split; [apply mi_edges_upd; assumption|]. split; [|reflexivity].
+      unfold mmu. cbn [with_edges m_kvp m_edges m_distinct m_match]. specialize (A3 (Hp E)). lia.
+  Qed.
+
+  (* ---------------------------------------------------------------- repeat_until_tightened around the matcher *)
+  Lemma mmu_bounds : forall u, MI u -> (mmu (fst (amt_bounds C u)) <= mmu u)%nat.
+  Proof.
+    intros u I. destruct (amt_bounds_spec u I) as (_ & A2 & _ & _ & A5 & A6 & A7 & _). unfold mmu. rewrite A5, A6, A7. lia.
+  Qed.
+
+  Lemma mloop_spec : forall fuel start u, MI u -> zdefb (snd (amt_bounds C u)) = false -> inr start Wv ->
+    (mmu (fst (amt_bounds C u)) < fuel)%nat ->
+    snd (arut_loop (amt_bounds C) (amt_func C) fuel start (fst (amt_bounds C u))) = false /\
+    snd (fst (arut_loop (amt_bounds C) (amt_func C) fuel start (fst (amt_bounds C u)))) = true /\
+    MI (fst (fst (arut_loop (amt_bounds C) (amt_func C) fuel start (fst (amt_bounds C u))))) /\
+    (mmu (fst (fst (arut_loop (amt_bounds C) (amt_func C) fuel start (fst (amt_bounds C u))))) < mmu (fst (amt_bounds C u)))%nat /\
+    m_kvp (fst (fst (arut_loop (amt_bounds C) (amt_func C) fuel start (fst (amt_bounds C u))))) = m_kvp u.
+  Proof.
+    induction fuel as [|fuel IH]; intros start u I D Hs Hf; [lia|].
+    destruct (amt_bounds_spec u I) as (A1 & _ & _ & _ & A5 & A6 & _ & _ & A9).
+    set (s := fst (amt_bounds C u)) in *.
+    destruct (amt_func_spec s A1 ltac:(intros Q; apply A9; [rewrite <- A5; exact Q|exact D])) as (F1 & F2 & F3).
+    pose proof (mmu_bounds _ F1) as M1.
+    destruct (amt_bounds_spec _ F1) as (B1 & _ & B3 & _ & _ & B6 & _).
+    cbn [arut_loop]. cbv zeta.
+    set (s1 := fst (amt_bounds C (amt_func C s))) in *. set (nb := snd (amt_bounds C (amt_func C s))) in *.
+    assert (Hrec : zdefb nb = false ->
+              snd (arut_loop (amt_bounds C) (amt_func C) fuel start s1) = false /\
+              snd (fst (arut_loop (amt_bounds C) (amt_func C) fuel start s1)) = true /\
+              MI (fst (fst (arut_loop (amt_bounds C) (amt_func C) fuel start s1))) /\
+              (mmu (fst (fst (arut_loop (amt_bounds C) (amt_func C) fuel start s1))) < mmu s)%nat /\
+              m_kvp (fst (fst (arut_loop (amt_bounds C) (amt_func C) fuel start s1))) = m_kvp u).
+    { intros Dn. destruct (IH start (amt_func C s) F1 Dn Hs ltac:(fold s1; lia)) as (R1 & R2 & R3 & R4 & R5). fold s1 in R1, R2, R3, R4, R5.
+      split; [exact R1|]. split; [exact R2|]. split; [exact R3|]. split; [lia|]. rewrite R5, F3. exact A6. }
+    destruct (widened nb start) eqn:Wd.
+    - apply Hrec. destruct (zdefb nb) eqn:Dn; [|reflexivity]. exfalso.
+      rewrite (def_point nb Wv B3 Dn) in Wd. unfold widened, inr in *. cbn [fst snd] in *.
+      apply orb_true_iff in Wd. destruct Wd as [Q|Q]; apply Z.ltb_lt in Q; lia.
+    - destruct (zdefb nb || tighter nb start) eqn:G.
+      + cbn [fst snd]. split; [reflexivity|]. split; [reflexivity|]. split; [exact B1|]. split; [lia|]. rewrite B6, F3. exact A6.
+      + apply Hrec. apply orb_false_iff in G. apply G.
+  Qed.
+
+  Lemma mrut_spec : forall fuel u, MI u -> (mmu u < fuel)%nat ->
+    snd (arut (amt_bounds C) (amt_func C) fuel u) = false /\
+    MI (fst (fst (arut (amt_bounds C) (amt_func C) fuel u))) /\
+    m_kvp (fst (fst (arut (amt_bounds C) (amt_func C) fuel u))) = m_kvp u /\
+    (snd (fst (arut (amt_bounds C) (amt_func C) fuel u)) = true ->
+     (mmu (fst (fst (arut (amt_bounds C) (amt_func C) fuel u))) < mmu u)%nat) /\
+    (snd (fst (arut (amt_bounds C) (amt_func C) fuel u)) = false ->
+     fst (fst (arut (amt_bounds C) (amt_func C) fuel u)) = fst (amt_bounds C u) /\ snd (amt_bounds C u) = (Wv, Wv)).
+  Proof.
+    intros fuel u I Hf. unfold arut. cbv zeta. pose proof (mmu_bounds u I) as M0.
+    destruct (amt_bounds_spec u I) as (A1 & _ & A3 & _ & _ & A6 & _).
+    destruct (zdefb (snd (amt_bounds C u))) eqn:D.
+    - cbn [fst snd]. split; [reflexivity|]. split; [exact A1|]. split; [exact A6|]. split; [discriminate|].
+      intros _. split; [reflexivity|apply (def_point _ _ A3 D)].
+    - destruct (mloop_spec fuel (snd (amt_bounds C u)) u I D A3 ltac:(lia)) as (R1 & R2 & R3 & R4 & R5).
+      split; [exact R1|]. split; [exact R3|]. split; [exact R5|]. split; [intros _; lia|]. rewrite R2. discriminate.
+  Qed.
+
+  (* ---------------------------------------------------------------- MultiSetEdit.tighten_bounds() *)
+  Notation KP := (fun u : mset ast => thread (k_bnd C) (m_kvp u) = (m_kvp u, pts kvs)).
+
+  Lemma amt_bounds_memo : forall u, m_memo u = Some (Wv, Wv) -> amt_bounds C u = (u, (Wv, Wv)).
+  Proof. intros u E. unfold amt_bounds. rewrite E. reflexivity. Qed.
+
+  Lemma ams_bounds_stable : forall u, amt_bounds C u = (u, (Wv, Wv)) -> KP u ->
+    ams_bounds C u = (u, zr_add (zr_add (Wv, Wv) (zsum kvs, zsum kvs)) (tailr u)).
+  Proof.
+    intros u H1 H2. rewrite ams_bounds_eq, H1. cbn [fst snd]. rewrite H2. cbn [fst snd]. rewrite with_kvp_same, zr_sum_pts. reflexivity.
+  Qed.
+
+  Lemma V_parts : zr_add (zr_add (Wv, Wv) (zsum kvs, zsum kvs)) (UCv, UCv) = (Vv, Vv).
+  Proof. unfold zr_add, Vv. cbn [fst snd]. reflexivity. Qed.
+
+  Lemma ams_tig_rest_spec : forall fuel s1, MI s1 -> KP s1 -> (mmu s1 < fuel)%nat ->
+    snd (fst (ams_tig_rest C fuel s1)) = false /\ MI (fst (fst (ams_tig_rest C fuel s1))) /\
+    (snd (ams_tig_rest C fuel s1) = true -> (mmu (fst (fst (ams_tig_rest C fuel s1))) < mmu s1)%nat) /\
+    (snd (ams_tig_rest C fuel s1) = false ->
+     (mmu (fst (fst (ams_tig_rest C fuel s1))) <= mmu s1)%nat /\
+     ams_bounds C (fst (fst (ams_tig_rest C fuel s1))) = (fst (fst (ams_tig_rest C fuel s1)), (Vv, Vv)) /\
+     snd (ams_bounds C s1) = (Vv, Vv)).
+  Proof.
+    intros fuel s1 I K Hf. unfold ams_tig_rest. cbv zeta.
+    pose proof (mrut_spec fuel s1 I Hf) as R. revert R.
+    generalize (arut (amt_bounds C) (amt_func C) fuel s1). intros [[s2 r] ex] (R1 & R2 & R3 & R4 & R5). cbn [fst snd] in *.
+    subst ex. destruct r.
+    - cbn [fst snd]. split; [reflexivity|]. split; [exact R2|]. split; [intros _; apply R4; reflexivity|discriminate].
+    - destruct (R5 eq_refl) as [Es2 Eb]. clear R4 R5.
+      destruct (amt_bounds_spec s1 I) as (A1 & _ & _ & A4 & A5 & A6 & _ & A8 & _).
+      rewrite <- Es2 in A1, A4, A5, A6, A8. rewrite Eb in A4, A8. specialize (A8 (zdefb_point _)).
+      assert (K2 : KP s2) by (rewrite A6; exact K).
+      pose proof (ams_bounds_stable s2 A4 K2) as S2.
+      assert (S1 : snd (ams_bounds C s1) = zr_add (zr_add (Wv, Wv) (zsum kvs, zsum kvs)) (tailr s2)).
+      { rewrite ams_bounds_eq. cbn [snd]. rewrite Eb, <- Es2, A6, K. cbn [fst snd]. rewrite zr_sum_pts. reflexivity. }
+      pose proof (mmu_bounds s1 I) as M2. rewrite <- Es2 in M2.
+      destruct (tailr_sound s2 A1) as [T1 T2].
+      destruct (m_match s2) as [mt|] eqn:Em.
+      + cbn [fst snd]. split; [reflexivity|]. split; [exact A1|]. split; [discriminate|]. intros _.
+        assert (Emt : Some mt = Some CH) by (destruct (mi_match s2 A1) as [Q|Q]; congruence).
+        rewrite (T2 Emt), V_parts in S2, S1. split; [exact M2|]. split; [exact S2|exact S1].
+      + rewrite S2. cbn [fst snd].
+        destruct (amt_force_spec s2 A1) as (F1 & F2 & F3 & F4 & F5 & F6). specialize (F6 Em).
+        set (sF := amt_force C s2) in *.
+        assert (KF : KP sF) by (rewrite F3; exact K2).
+        pose proof (ams_bounds_stable sF (amt_bounds_memo sF ltac:(rewrite F4; exact A8)) KF) as SF.
+        destruct (tailr_sound sF F1) as [_ TF]. rewrite (TF F2), V_parts in SF. rewrite SF. cbn [fst snd].
+        split; [reflexivity|]. split; [exact F1|]. split; [intros _; lia|]. intros Ht.
+        split; [lia|]. split; [exact SF|]. rewrite S1.
+        set (r0 := zr_add (zr_add (Wv, Wv) (zsum kvs, zsum kvs)) (tailr s2)) in *.
+        assert (Hr0 : inr r0 Vv) by (unfold r0, inr, zr_add, Vv in *; cbn [fst snd] in *; lia).
+        unfold tighter in Ht. cbn [fst snd] in Ht. apply orb_false_iff in Ht. destruct Ht as [H1 H2].
+        apply Z.ltb_ge in H1. apply Z.ltb_ge in H2. destruct r0 as [lo hi]. unfold inr in Hr0. cbn [fst snd] in *. f_equal; lia.
+  Qed.
+
+  Lemma amset_mu_eq : forall u, amset_mu C u = mmu u.
+  Proof. intros u. unfold amset_mu, mmu, mu2. rewrite mu_ops. reflexivity. Qed.
+
+  Lemma ams_tig_spec : forall s, MI s ->
+    snd (fst (ams_tig C s)) = false /\ MI (fst (fst (ams_tig C s))) /\
+    (snd (ams_tig C s) = true -> (mmu (fst (fst (ams_tig C s))) < mmu s)%nat) /\
+    (snd (ams_tig C s) = false ->
+     (mmu (fst (fst (ams_tig C s))) <= mmu s)%nat /\
+     ams_bounds C (fst (fst (ams_tig C s))) = (fst (fst (ams_tig C s)), (Vv, Vv)) /\
+     snd (ams_bounds C s) = (Vv, Vv)).
+  Proof.
+    intros s I. unfold ams_tig. cbv zeta.
+    destruct (first_true_spec q d PC HPC _ _ (mi_kvp s I)) as (T1 & T2 & T3).
+    set (p := first_true (k_tig C) (m_kvp s)) in *.
+    assert (I1 : MI (with_kvp s (fst p))) by (apply mi_kvp_upd; assumption).
+    destruct (snd p) eqn:Ep.
+    - cbn [fst snd]. split; [reflexivity|]. split; [exact I1|]. split; [|discriminate].
+      intros _. specialize (T2 eq_refl). unfold mmu. cbn [with_kvp m_kvp m_edges m_distinct m_match]. lia.
+    - destruct (T3 eq_refl) as (J1 & J2 & J3).
+      assert (Mu : (mmu (with_kvp s (fst p)) <= mmu s)%nat) by (unfold mmu; cbn [with_kvp m_kvp m_edges m_distinct m_match]; lia).
+      destruct (ams_tig_rest_spec (S (S (S (amset_mu C (with_kvp s (fst p)))))) (with_kvp s (fst p)) I1 J2
+                                  ltac:(rewrite amset_mu_eq; lia)) as (R1 & R2 & R3 & R4).
+      split; [exact R1|]. split; [exact R2|]. split; [intros Q; specialize (R3 Q); lia|].
+      intros Q. destruct (R4 Q) as (Q1 & Q2 & Q3). split; [lia|]. split; [exact Q2|].
+      rewrite <- Q3. rewrite !ams_bounds_eq. cbn [snd]. rewrite amt_bounds_kvp. cbn [fst snd with_kvp m_kvp].
+      destruct (amt_bounds_spec s I) as (_ & _ & _ & _ & _ & A6 & _). rewrite A6, J2. cbn [fst snd]. rewrite J3. reflexivity.
+  Qed.
+
+  (* ---------------------------------------------------------------- the class lemma *)
+  Lemma bnd_mset : forall ix m err,
+    k_bnd (opsA q (S d)) (AMSet ix m err) = (AMSet ix (fst (ams_bounds C m)) err, snd (ams_bounds C m)).
+  Proof. reflexivity. Qed.
+  Lemma tig_mset : forall ix m err,
+    k_tig (opsA q (S d)) (AMSet ix m err) = (AMSet ix (fst (fst (ams_tig C m))) (err || snd (fst (ams_tig C m))), snd (ams_tig C m)).
+  Proof. reflexivity. Qed.
+  Lemma cmp_mset : forall ix m err,
+    k_cmp (opsA q (S d)) (AMSet ix m err) = (AMSet ix m err, match m_match m with Some _ => true | None => false end).
+  Proof. reflexivity. Qed.
+
+  Lemma f2_err2 : forall e vss, Forall2 (Forall2 PC) e vss -> existsb (fun row => existsb errA row) e = false.
+  Proof.
+    induction 1 as [|row vrow e vss Hrow _ IH]; [reflexivity|]. cbn [existsb]. rewrite IH, (f2_err q d PC HPC _ _ Hrow). reflexivity.
+  Qed.
+
+  Lemma mmu_muA : forall ix m err, muA (AMSet ix m err) = mmu m.
+  Proof. reflexivity. Qed.
+
+  Lemma mset_step : forall ix m, MI m ->
+    astep_ok (AM q (S d)) (fun t => exists m', t = AMSet ix m' false /\ MI m') Vv (AMSet ix m false).
+  Proof.
+    intros ix m I. unfold astep_ok. cbn [AM ASt a_bnd a_tig a_cmp a_eds a_err a_mu].
+    destruct (ams_bounds_spec m I) as (B1 & B2 & B3 & B4 & _).
+    destruct (ams_tig_spec m I) as (T1 & T2 & T3 & T4).
+    split. { cbn [errA orb]. rewrite (f2_err q d PC HPC _ _ (mi_kvp m I)), (f2_err2 _ _ (mi_edges m I)). reflexivity. }
+    split; [|split; [|split]].
+    - rewrite bnd_mset. cbn [fst snd]. rewrite !mmu_muA.
+      split; [eexists; split; [reflexivity|exact B1]|]. split; [exact B2|]. split; [exact B3|].
+      rewrite bnd_mset, B4. reflexivity.
+    - rewrite tig_mset, T1. cbn [fst snd orb]. rewrite !mmu_muA.
+      split; [eexists; split; [reflexivity|exact T2]|]. split; [exact T3|].
+      intros E. destruct (T4 E) as (Q1 & Q2 & Q3). split; [exact Q1|]. split.
+      + rewrite bnd_mset, Q2. reflexivity.
+      + rewrite bnd_mset. cbn [snd]. exact Q3.
+    - rewrite cmp_mset. cbn [fst]. split; [eexists; split; [reflexivity|exact I]|lia].
+    - cbn [listing fst]. replace (S d - 1)%nat with d by lia. rewrite !mmu_muA.
+      destruct (amt_force_spec m I) as (F1 & _ & _ & _ & F5 & _).
+      split; [eexists; split; [reflexivity|exact F1]|exact F5].
+  Qed.
+End MSetC.
+
+Lemma Forall2_of_nth : forall {A B} (R : A -> B -> Prop) l l', length l = length l' ->
+  (forall i x y, nth_error l i = Some x -> nth_error l' i = Some y -> R x y) -> Forall2 R l l'.
+Proof.
+  intros A B R. induction l as [|a l IH]; intros [|b l'] Hl H; cbn [length] in Hl; try discriminate; constructor.
+  - apply (H O a b); reflexivity.
+  - apply IH; [lia|]. intros i x y Hx Hy. apply (H (S i) x y); assumption.
+Qed.
+
+(* ================================================================ Part 3c: EditCollection / FixedKeyDictNodeEdit over
+   sub-edits under a contract *)
+Definition smu (l : list (ast * Z)) : nat := nat_sum (map (fun p => muA (fst p)) l).
+
+Lemma smu_app : forall l1 l2, smu (l1 ++ l2) = (smu l1 + smu l2)%nat.
+Proof. intros l1 l2. induction l1 as [|a l IH]; [reflexivity|]. unfold smu in *. cbn [app map]. rewrite !nat_sum_cons, IH. lia. Qed.
+
+Lemma thread_idem : forall {X R} (f : X -> X * R) l,
+  Forall (fun x => f (fst (f x)) = (fst (f x), snd (f x))) l -> thread f (fst (thread f l)) = thread f l.
+Proof.
+  intros X R f l H. induction H as [|x l Hx _ IH]; [reflexivity|].
+  cbn [thread]. cbv zeta. cbn [fst snd]. cbn [thread]. cbv zeta. rewrite Hx. cbn [fst snd]. rewrite IH. reflexivity.
+Qed.
+
+Lemma def_pt : forall (r : zr) v, inr r v -> zdefb r = true -> r = (v, v).
+Proof. intros [lo hi] v [A B] D. unfold zdefb in D. cbn [fst snd] in *. apply Z.eqb_eq in D. f_equal; lia. Qed.
+
+Ltac csimp := cbn [ccl cius cerr set_subs set_memo set_invalid c_set_subs c_set_memo c_fail k_U k_valid k_pend k_subs k_cost fst snd] in *.
+
+Lemma nsum_set_nth : forall {A} (f : A -> nat) (l : list A) i x y, nth_error l i = Some x ->
+  (nat_sum (map f (set_nth i y l)) + f x = nat_sum (map f l) + f y)%nat.
+Proof.
+  intros A f. induction l as [|z l IH]; intros [|i] x y H; cbn [nth_error] in H; try discriminate.
+  - injection H as ->. cbn [set_nth map]. rewrite !nat_sum_cons. lia.
+  - cbn [set_nth map]. rewrite !nat_sum_cons. specialize (IH i x y H). lia.
+Qed.
+
+Lemma map_snd_set_nth : forall {A B} (l : list (A * B)) i p p', nth_error l i = Some p -> snd p' = snd p ->
+  map snd (set_nth i p' l) = map snd l.
+Proof.
+  intros A B. induction l as [|z l IH]; intros [|i] p p' H E; cbn [nth_error] in H; try discriminate.
+  - injection H as ->. cbn [set_nth map]. rewrite E. reflexivity.
+  - cbn [set_nth map]. f_equal. apply (IH i p p' H E).
+Qed.
+
+Section CollC.
+  Variables (q : bool) (d : nat).
+  Notation CM := (AM q d).
+  Notation C := (opsA q d).
+  Variable PC : ast -> Z -> Prop.
+  Hypothesis HPC : forall x v, PC x v -> astep_ok (AM q d) (fun t => PC t v) v x.
+
+  Definition SP (p : ast * Z) (v : Z) : Prop := PC (fst p) v /\ v <= snd p.
+
+  Lemma rd1_pt : forall p v, SP p v ->
+    SP (fst (rd1 C p)) v /\ (muA (fst (fst (rd1 C p))) <= muA (fst p))%nat /\ inr (snd (rd1 C p)) v /\
+    rd1 C (fst (rd1 C p)) = (fst (rd1 C p), snd (rd1 C p)) /\ snd (fst (rd1 C p)) = snd p /\
+    snd (rd1 C p) = snd (k_bnd C (fst p)).
+  Proof.
+    intros p v [Hp Hv]. destruct (pb q d PC HPC _ v Hp) as (B1 & B2 & B3 & B4). unfold rd1. cbv zeta. cbn [fst snd].
+    split; [split; assumption|]. split; [exact B2|]. split; [exact B3|]. split; [rewrite B4; reflexivity|split; reflexivity].
+  Qed.
+
+  Lemma rd2_pt : forall p v, SP p v ->
+    SP (fst (rd2 C p)) v /\ (muA (fst (fst (rd2 C p))) <= muA (fst p))%nat /\
+    (fst (snd (rd2 C p)) <= v /\ v <= snd p - snd (snd (rd2 C p))) /\
+    rd2 C (fst (rd2 C p)) = (fst (rd2 C p), snd (rd2 C p)) /\ snd (fst (rd2 C p)) = snd p.
+  Proof.
+    intros p v [Hp Hv]. destruct (pb q d PC HPC _ v Hp) as (B1 & B2 & B3 & B4).
+    destruct (pb q d PC HPC _ v B1) as (C1 & C2 & C3 & C4). unfold rd2. cbv zeta. cbn [fst snd].
+    split; [split; assumption|]. split; [lia|]. split; [unfold inr in *; lia|]. split; [|reflexivity].
+    rewrite C4. cbn [fst snd]. rewrite C4. cbn [fst snd]. rewrite B4. reflexivity.
+  Qed.
+
+  (* a pass of reads over _sub_edits *)
+  Lemma rd_pass : forall (rd : ast * Z -> (ast * Z) * zr),
+    (forall p v, SP p v -> SP (fst (rd p)) v /\ (muA (fst (fst (rd p))) <= muA (fst p))%nat /\
+                            rd (fst (rd p)) = (fst (rd p), snd (rd p)) /\ snd (fst (rd p)) = snd p) ->
+    forall l vs, Forall2 SP l vs ->
+    Forall2 SP (fst (thread rd l)) vs /\ (smu (fst (thread rd l)) <= smu l)%nat /\
+    thread rd (fst (thread rd l)) = thread rd l /\ map snd (fst (thread rd l)) = map snd l.
+  Proof.
+    intros rd Hrd l vs H.
+    assert (Hid : Forall (fun x => rd (fst (rd x)) = (fst (rd x), snd (rd x))) l).
+    { clear - H Hrd. induction H as [|p v l vs Hp _ IH]; constructor; [apply (Hrd p v Hp)|exact IH]. }
+    split; [|split; [|split; [apply (thread_idem rd l Hid)|]]]; clear Hid.
+    - induction H as [|p v l vs Hp _ IH]; [constructor|]. cbn [thread]. cbv zeta. cbn [fst]. constructor; [apply (Hrd p v Hp)|exact IH].
+    - induction H as [|p v l vs Hp _ IH]; [cbn; lia|]. cbn [thread]. cbv zeta. cbn [fst]. unfold smu in *. cbn [map].
+      rewrite !nat_sum_cons. destruct (Hrd p v Hp) as (_ & M & _). lia.
+    - induction H as [|p v l vs Hp _ IH]; [reflexivity|]. cbn [thread]. cbv zeta. cbn [fst map]. f_equal; [apply (Hrd p v Hp)|exact IH].
+  Qed.
+
+  Lemma rd1_pass : forall l vs, Forall2 SP l vs ->
+    Forall2 SP (fst (thread (rd1 C) l)) vs /\ (smu (fst (thread (rd1 C) l)) <= smu l)%nat /\
+    thread (rd1 C) (fst (thread (rd1 C) l)) = thread (rd1 C) l /\ map snd (fst (thread (rd1 C) l)) = map snd l.
+  Proof.
+    apply rd_pass. intros p v Hp. destruct (rd1_pt p v Hp) as (A1 & A2 & _ & A4 & A5 & _). auto.
+  Qed.
+  Lemma rd2_pass : forall l vs, Forall2 SP l vs ->
+    Forall2 SP (fst (thread (rd2 C) l)) vs /\ (smu (fst (thread (rd2 C) l)) <= smu l)%nat /\
+    thread (rd2 C) (fst (thread (rd2 C) l)) = thread (rd2 C) l /\ map snd (fst (thread (rd2 C) l)) = map snd l.
+  Proof.
+    apply rd_pass. intros p v Hp. destruct (rd2_pt p v Hp) as (A1 & A2 & _ & A4 & A5). auto.
+  Qed.
+
+  Lemma rd1_sum : forall l vs, Forall2 SP l vs -> inr (zr_sum (snd (thread (rd1 C) l))) (zsum vs).
+  Proof.
+    induction 1 as [|p v l vs Hp _ IH]; [unfold inr; cbn; lia|].
+    cbn [thread]. cbv zeta. cbn [snd]. rewrite zr_sum_cons, zsum_cons. destruct (rd1_pt p v Hp) as (_ & _ & A3 & _).
+    unfold inr, zr_add in *. cbn [fst snd]. lia.
+  Qed.
+  Lemma rd1_points : forall l vs, Forall2 (fun p v => snd (k_bnd C (fst p)) = (v, v)) l vs ->
+    zr_sum (snd (thread (rd1 C) l)) = (zsum vs, zsum vs).
+  Proof.
+    induction 1 as [|p v l vs Hp _ IH]; [reflexivity|].
+    cbn [thread]. cbv zeta. cbn [snd]. rewrite zr_sum_cons, zsum_cons, IH. unfold rd1. cbv zeta. cbn [snd]. rewrite Hp. reflexivity.
+  Qed.
+  Lemma rd2_sum : forall l vs, Forall2 SP l vs ->
+    zsum (map fst (snd (thread (rd2 C) l))) <= zsum vs /\ zsum vs <= zsum (map snd l) - zsum (map snd (snd (thread (rd2 C) l))).
+  Proof.
+    induction 1 as [|p v l vs Hp _ IH]; [cbn; lia|].
+    cbn [thread]. cbv zeta. cbn [snd map]. rewrite !zsum_cons. destruct (rd2_pt p v Hp) as (_ & _ & A3 & _). lia.
+  Qed.
+
+  (* ---------------------------------------------------------------- the invariant *)
+  Variables (U : Z) (vs : list Z).
+  Hypothesis Hnn : Forall (fun x => 0 <= x) vs.
+  Definition Vc : Z := zsum vs.
+  Notation cstA := (@cst ast).
+
+  Definition cmu (s : cstA) : nat :=
+    (match k_pend (ccl s) with Some l => S (length l + nat_sum (map muA l)) | None => O end + smu (k_subs (ccl s)))%nat.
+
+  Record CI (s : cstA) : Prop := {
+    ci_U : k_U (ccl s) = U; ci_valid : k_valid (ccl s) = true; ci_err : cerr s = false;
+    ci_split : exists vs1 vs2, vs = vs1 ++ vs2 /\ Forall2 SP (k_subs (ccl s)) vs1 /\
+        match k_pend (ccl s) with
+        | Some l => Forall2 PC l vs2 /\ Forall2 (fun iu v => v <= iu) (cius s) vs2 /\
+                    zsum (map snd (k_subs (ccl s))) + zsum (cius s) <= U
+        | None => vs2 = [] /\ zsum (map snd (k_subs (ccl s))) <= U
+        end;
+    ci_memo : k_cost (ccl s) = None \/ (k_cost (ccl s) = Some (Vc, Vc) /\ k_pend (ccl s) = None) }.
+
+  Lemma sp_sum_le : forall l vs1, Forall2 SP l vs1 -> zsum vs1 <= zsum (map snd l).
+  Proof. induction 1 as [|p v l vs1 [_ Hv] _ IH]; [cbn; lia|]. cbn [map]. rewrite !zsum_cons. lia. Qed.
+  Lemma le_sum_le : forall ius vs2, Forall2 (fun iu v => v <= iu) ius vs2 -> zsum vs2 <= zsum ius.
+  Proof. induction 1 as [|iu v l vs2 Hv _ IH]; [cbn; lia|]. rewrite !zsum_cons. lia. Qed.
+  Lemma nn_split : forall vs1 vs2, vs = vs1 ++ vs2 -> 0 <= zsum vs1 /\ 0 <= zsum vs2 /\ Vc = zsum vs1 + zsum vs2.
+  Proof.
+    intros vs1 vs2 E. unfold Vc. rewrite E, zsum_app. rewrite E in Hnn. apply Forall_app in Hnn. destruct Hnn as [H1 H2].
+    split; [apply zsum_nonneg; exact H1|]. split; [apply zsum_nonneg; exact H2|reflexivity].
+  Qed.
+
+  (* bounds() *)
+  Lemma acoll_bounds_spec : forall s, CI s ->
+    CI (fst (acoll_bounds C s)) /\ (cmu (fst (acoll_bounds C s)) <= cmu s)%nat /\ inr (snd (acoll_bounds C s)) Vc /\
+    acoll_bounds C (fst (acoll_bounds C s)) = (fst (acoll_bounds C s), snd (acoll_bounds C s)) /\
+    k_pend (ccl (fst (acoll_bounds C s))) = k_pend (ccl s) /\ cius (fst (acoll_bounds C s)) = cius s /\
+    (k_pend (ccl s) = None -> zdefb (snd (acoll_bounds C s)) = true -> k_cost (ccl (fst (acoll_bounds C s))) = Some (Vc, Vc)).
+  Proof.
+    intros [[c ius] err] I. destruct I as [IU IV IE (vs1 & vs2 & Evs & Hsubs & Hpend) IM]. csimp.
+    destruct (nn_split vs1 vs2 Evs) as (N1 & N2 & EV). pose proof (sp_sum_le _ _ Hsubs) as S1.
+    assert (Hmemo : forall (u : cstA), k_valid (ccl u) = true -> k_cost (ccl u) = Some (Vc, Vc) -> acoll_bounds C u = (u, (Vc, Vc))).
+    { intros u E1 E2. unfold acoll_bounds. cbv zeta. rewrite E1, E2. reflexivity. }
+    destruct (k_cost c) as [r|] eqn:Ec.
+    - destruct IM as [Q|[Q Qp]]; [discriminate|]. injection Q as ->.
+      rewrite (Hmemo (c, ius, err) IV Ec). cbn [fst snd ccl cius].
+      split; [constructor; csimp; try assumption; [exists vs1, vs2; auto|right; auto]|].
+      split; [lia|]. split; [unfold inr; cbn [fst snd]; lia|]. split; [apply (Hmemo (c, ius, err) IV Ec)|]. split; [reflexivity|]. split; [reflexivity|].
+      intros _ _. exact Ec.
+    - destruct (k_pend c) as [l|] eqn:Ep.
+      + destruct Hpend as (Hl & Hius & HU).
+        destruct (rd2_pass _ _ Hsubs) as (P1 & P2 & P3 & P4). destruct (rd2_sum _ _ Hsubs) as [L1 L2].
+        pose proof (le_sum_le _ _ Hius) as S2.
+        set (t := thread (rd2 C) (k_subs c)) in *.
+        set (lo := zsum (map fst (snd t))) in *. set (hi := U - zsum (map snd (snd t))).
+        assert (Eq : forall c', k_valid c' = true -> k_cost c' = None -> k_pend c' = Some l -> k_U c' = U -> thread (rd2 C) (k_subs c') = t ->
+                     acoll_bounds C (c', ius, err) = ((set_subs c' (fst t), ius, err), (lo, Z.min U hi))).
+        { intros c' E1 E2 E3 E4 E5. unfold acoll_bounds. cbv zeta. csimp. rewrite E1, E2, E3, E4, E5. cbn [negb].
+          fold lo. destruct (U <? lo) eqn:Q; [apply Z.ltb_lt in Q; lia|]. reflexivity. }
+        rewrite (Eq c IV Ec Ep IU eq_refl). cbn [fst snd ccl cius].
+        split.
+        { constructor; csimp; try assumption; [|left; exact Ec].
+          exists vs1, vs2. split; [exact Evs|]. split; [exact P1|]. csimp. rewrite Ep. rewrite P4. auto. }
+        split; [unfold cmu; csimp; rewrite Ep; lia|].
+        split; [unfold inr, hi; cbn [fst snd]; lia|].
+        split; [|split; [csimp; exact Ep|split; [reflexivity|intros Q; discriminate Q]]].
+        rewrite (Eq (set_subs c (fst t)) IV Ec Ep IU P3). reflexivity.
+      + destruct Hpend as (-> & HU). rewrite app_nil_r in Evs. subst vs1. cbn [zsum fold_right] in EV.
+        destruct (rd1_pass _ _ Hsubs) as (P1 & P2 & P3 & P4). pose proof (rd1_sum _ _ Hsubs) as L.
+        set (t := thread (rd1 C) (k_subs c)) in *. set (tot := zr_sum (snd t)) in *.
+        set (r := (fst tot, Z.min U (snd tot))).
+        assert (Hr : inr r Vc) by (unfold inr, r in *; fold Vc in L; cbn [fst snd]; lia).
+        assert (Eq : forall c', k_valid c' = true -> k_cost c' = None -> k_pend c' = None -> k_U c' = U -> thread (rd1 C) (k_subs c') = t ->
+                     acoll_bounds C (c', ius, err) = if zdefb r then ((set_memo (set_subs c' (fst t)) (Some r), ius, err), r)
+                                                    else ((set_subs c' (fst t), ius, err), r)).
+        { intros c' E1 E2 E3 E4 E5. unfold acoll_bounds. cbv zeta. csimp. rewrite E1, E2, E3, E4, E5. cbn [negb].
+          fold tot. destruct (U <? fst tot) eqn:Q; [apply Z.ltb_lt in Q; unfold inr in L; fold Vc in L; lia|]. fold r. reflexivity. }
+        rewrite (Eq c IV Ec Ep IU eq_refl).
+        assert (I1 : CI (set_subs c (fst t), ius, err)).
+        { constructor; csimp; try assumption; [|left; exact Ec].
+          exists vs, []. rewrite app_nil_r. split; [reflexivity|]. split; [exact P1|]. csimp. rewrite Ep, P4. auto. }
+        destruct (zdefb r) eqn:D; cbn [fst snd ccl cius].
+        * rewrite (def_pt r Vc Hr D).
+          split.
+          { constructor; csimp; try assumption; [|right; auto].
+            exists vs, []. rewrite app_nil_r. split; [reflexivity|]. split; [exact P1|]. csimp. rewrite Ep, P4. auto. }
+          split; [unfold cmu; csimp; rewrite Ep; lia|].
+          split; [unfold inr; cbn [fst snd]; lia|].
+          split; [apply Hmemo; [exact IV|reflexivity]|]. split; [csimp; exact Ep|]. split; [reflexivity|].
+          intros _ _. reflexivity.
+        * split; [exact I1|]. split; [unfold cmu; csimp; rewrite Ep; lia|]. split; [exact Hr|].
+          split; [|split; [csimp; exact Ep|split; [reflexivity|intros _ Q; rewrite D in Q; discriminate Q]]].
+          rewrite (Eq (set_subs c (fst t)) IV Ec Ep IU P3). reflexivity.
+  Qed.
+
+  Lemma acoll_bounds_points : forall s, CI s -> k_pend (ccl s) = None ->
+    Forall2 (fun p v => snd (k_bnd C (fst p)) = (v, v)) (k_subs (ccl s)) vs -> snd (acoll_bounds C s) = (Vc, Vc).
+  Proof.
+    intros [[c ius] err] I Ep Hp. destruct (acoll_bounds_spec _ I) as (_ & _ & B3 & _). revert B3.
+    destruct I as [IU IV IE _ IM]. csimp. unfold acoll_bounds. cbv zeta. csimp. rewrite IV. cbn [negb].
+    destruct (k_cost c) as [r|] eqn:Ec.
+    - destruct IM as [Q|[Q _]]; [discriminate|]. intros _. cbn [snd]. congruence.
+    - rewrite Ep. rewrite (rd1_points _ _ Hp). fold Vc. cbn [fst snd].
+      destruct (k_U c <? Vc) eqn:Q.
+      + cbn [snd]. unfold inr. cbn [fst snd]. intros B3. f_equal; lia.
+      + destruct (zdefb (Vc, Z.min (k_U c) Vc)); cbn [snd]; unfold inr; cbn [fst snd]; intros B3; f_equal; lia.
+  Qed.
+
+  (* _is_tightened(starting_bounds) *)
+  Lemma acoll_ist_spec : forall start s, CI s ->
+    acoll_is_tightened C start s = (fst (acoll_bounds C s), tighter (snd (acoll_bounds C s)) start).
+  Proof.
+    intros start s I. destruct (acoll_bounds_spec s I) as (_ & _ & _ & B4 & _). unfold acoll_is_tightened. cbv zeta.
+    rewrite (ci_valid s I). cbn [negb]. unfold tighter. destruct (fst start <? fst (snd (acoll_bounds C s))); [reflexivity|].
+    rewrite B4. reflexivity.
+  Qed.
+
+  Lemma f2_app : forall {A B} (R : A -> B -> Prop) l1 l2 v1 v2, Forall2 R l1 v1 -> Forall2 R l2 v2 -> Forall2 R (l1 ++ l2) (v1 ++ v2).
+  Proof. intros A B R l1 l2 v1 v2 H1 H2. induction H1; cbn [app]; [exact H2|constructor; assumption]. Qed.
+
+  (* _expand_edits() *)
+  Lemma acoll_expand_spec : forall s, CI s ->
+    CI (fst (acoll_expand C s)) /\
+    match k_pend (ccl s) with
+    | None => acoll_expand C s = (s, false)
+    | Some [] => snd (acoll_expand C s) = false /\ k_pend (ccl (fst (acoll_expand C s))) = None /\ (cmu (fst (acoll_expand C s)) < cmu s)%nat
+    | Some (_ :: _) => snd (acoll_expand C s) = true /\ (cmu (fst (acoll_expand C s)) < cmu s)%nat
+    end.
+  Proof.
+    intros [[c ius] err] I. pose proof I as [IU IV IE (vs1 & vs2 & Evs & Hsubs & Hpend) IM]. csimp. unfold acoll_expand. cbv zeta. csimp.
+    destruct (k_pend c) as [[|x rest]|] eqn:Ep.
+    - destruct Hpend as (Hl & Hius & HU). inversion Hl. subst vs2. inversion Hius. subst.
+      split; [|split; [reflexivity|split; [reflexivity|unfold cmu; csimp; rewrite Ep; cbn [length map nat_sum fold_right]; lia]]].
+      constructor; csimp; try assumption; try reflexivity.
+      + exists vs1, []. split; [exact Evs|]. split; [exact Hsubs|]. cbn [zsum fold_right] in HU. split; [reflexivity|lia].
+      + left. destruct IM as [Q|[_ Q]]; [exact Q|congruence].
+    - destruct Hpend as (Hl & Hius & HU). inversion Hl as [|? v ? vs2' Hx Hrest]. subst. inversion Hius as [|iu ? ius' ? Hiu Hius']. subst.
+      destruct (pb q d PC HPC x v Hx) as (B1 & B2 & _). cbn [hd tl].
+      split; [|split; [reflexivity|]].
+      + constructor; csimp; try assumption; try reflexivity; [|left; reflexivity].
+        exists (vs1 ++ [v]), vs2'. split; [rewrite <- app_assoc; exact Evs|]. split.
+        * apply f2_app; [exact Hsubs|]. constructor; [split; [exact B1|exact Hiu]|constructor].
+        * split; [exact Hrest|]. split; [exact Hius'|]. rewrite map_app, zsum_app. rewrite zsum_cons in HU. cbn [map snd zsum fold_right]. lia.
+      + unfold cmu. csimp. rewrite Ep. rewrite smu_app. unfold smu at 2. cbn [length map fst]. rewrite !nat_sum_cons. change (nat_sum []) with O. lia.
+    - split; [exact I|reflexivity].
+  Qed.
+
+  (* list(edits()) *)
+  Lemma acoll_edits_spec : forall s, CI s -> CI (acoll_edits C s) /\ (cmu (acoll_edits C s) <= cmu s)%nat /\ k_pend (ccl (acoll_edits C s)) = None.
+  Proof.
+    intros [[c ius] err] I. pose proof I as [IU IV IE (vs1 & vs2 & Evs & Hsubs & Hpend) IM]. csimp. unfold acoll_edits. cbv zeta. csimp.
+    destruct (k_pend c) as [l|] eqn:Ep; [|split; [exact I|split; [lia|csimp; exact Ep]]].
+    destruct Hpend as (Hl & Hius & HU).
+    assert (Hnew : Forall2 SP (map (fun xi => (fst (k_bnd C (fst xi)), snd xi)) (combine l ius)) vs2 /\
+                   map snd (map (fun xi : ast * Z => (fst (k_bnd C (fst xi)), snd xi)) (combine l ius)) = ius /\
+                   (smu (map (fun xi : ast * Z => (fst (k_bnd C (fst xi)), snd xi)) (combine l ius)) <= nat_sum (map muA l))%nat).
+    { clear - Hl Hius HPC. revert ius Hius. induction Hl as [|x v l vs2 Hx _ IH]; intros ius Hius; inversion Hius; subst.
+      - cbn. repeat split; constructor.
+      - destruct (IH _ H3) as (I1 & I2 & I3). destruct (pb q d PC HPC x v Hx) as (B1 & B2 & _).
+        cbn [combine map fst snd]. unfold smu in *. cbn [map fst]. rewrite !nat_sum_cons.
+        split; [constructor; [split; assumption|exact I1]|]. split; [f_equal; exact I2|lia]. }
+    destruct Hnew as (N1 & N2 & N3).
+    split; [|split; [|reflexivity]].
+    - constructor; csimp; try assumption.
+      + exists vs, []. rewrite app_nil_r. split; [reflexivity|]. split; [rewrite Evs; apply f2_app; assumption|].
+        split; [reflexivity|]. rewrite map_app, zsum_app, N2. exact HU.
+      + left. destruct IM as [Q|[_ Q]]; [|congruence]. destruct l; [exact Q|reflexivity].
+    - unfold cmu. csimp. rewrite Ep, smu_app. lia.
+  Qed.
+
+  (* ---------------------------------------------------------------- one sub-edit *)
+  Lemma ci_kid : forall s j p, CI s -> nth_error (k_subs (ccl s)) j = Some p -> exists v, nth_error vs j = Some v /\ SP p v.
+  Proof.
+    intros s j p I Hp. destruct (ci_split s I) as (vs1 & vs2 & Evs & Hsubs & _).
+    destruct (Forall2_nth_error _ _ _ _ _ Hsubs Hp) as (v & Ev & Hv). exists v. split; [|exact Hv].
+    rewrite Evs. rewrite nth_error_app1; [exact Ev|]. apply nth_error_Some. congruence.
+  Qed.
+
+  Lemma ci_set_kid : forall s j p p' v (memo_reset : bool), CI s -> nth_error (k_subs (ccl s)) j = Some p -> nth_error vs j = Some v ->
+    SP p' v -> snd p' = snd p ->
+    let s' := c_set_subs s (set_nth j p' (k_subs (ccl s))) in
+    CI (if memo_reset then c_set_memo s' None else s') /\
+    (cmu (if memo_reset then c_set_memo s' None else s') + muA (fst p) = cmu s + muA (fst p'))%nat.
+  Proof.
+    intros [[c ius] err] j p p' v mr I Hp Hv Hp' Es. cbv zeta.
+    pose proof I as [IU IV IE (vs1 & vs2 & Evs & Hsubs & Hpend) IM]. csimp.
+    destruct (Forall2_nth_error _ _ _ _ _ Hsubs Hp) as (v1 & Ev1 & _).
+    assert (v1 = v).
+    { rewrite Evs in Hv. rewrite nth_error_app1 in Hv by (apply nth_error_Some; congruence). congruence. }
+    subst v1.
+    pose proof (Forall2_set_nth _ _ _ _ _ _ Hsubs Ev1 Hp') as Hsubs'.
+    pose proof (map_snd_set_nth _ _ _ _ Hp Es) as Em.
+    pose proof (nsum_set_nth (fun p0 : ast * Z => muA (fst p0)) _ _ _ p' Hp) as Mu. cbv beta in Mu.
+    split.
+    - destruct mr; constructor; csimp; try assumption; try (left; reflexivity);
+        exists vs1, vs2; (split; [exact Evs|]); (split; [exact Hsubs'|]); rewrite Em; exact Hpend.
+    - destruct mr; unfold cmu, smu; csimp; lia.
+  Qed.
+
+  (* the `for child in self._sub_edits` loop *)
+  Definition PtsAt (l : list (ast * Z)) (lo hi : nat) : Prop :=
+    forall j p, (lo <= j)%nat -> (j < hi)%nat -> nth_error l j = Some p ->
+                exists v, nth_error vs j = Some v /\ snd (k_bnd C (fst p)) = (v, v).
+
+  Definition ForR (i n : nat) (s : cstA) (tg : bool) (res : afor cstA) : Prop :=
+    match res with
+    | AExit s' => CI s' /\ (cmu s' < cmu s)%nat
+    | ADone s' tg' =>
+        CI s' /\ (cmu s' <= cmu s)%nat /\ k_pend (ccl s') = k_pend (ccl s) /\
+        (tg' = true -> tg = true \/ (cmu s' < cmu s)%nat) /\
+        (tg' = false -> tg = false /\ PtsAt (k_subs (ccl s)) i (i + n) /\ PtsAt (k_subs (ccl s')) i (i + n) /\
+                        (forall j, (j < i)%nat \/ (i + n <= j)%nat -> nth_error (k_subs (ccl s')) j = nth_error (k_subs (ccl s)) j))
+    end.
+
+  Lemma acoll_for_spec : forall n i start s tg, CI s -> ForR i n s tg (acoll_for C n i start s tg).
+  Proof.
+    induction n as [|n IH]; intros i start s tg I.
+    - cbn [acoll_for ForR]. split; [exact I|]. split; [lia|]. split; [reflexivity|]. split; [intros ->; left; reflexivity|].
+      intros ->. split; [reflexivity|]. split; [intros j p A B; lia|]. split; [intros j p A B; lia|reflexivity].
+    - cbn [acoll_for]. destruct (nth_error (k_subs (ccl s)) i) as [xi|] eqn:Ei.
+      2:{ cbn [ForR]. split; [exact I|]. split; [lia|]. split; [reflexivity|]. split; [intros ->; left; reflexivity|].
+          intros ->. split; [reflexivity|]. apply nth_error_None in Ei.
+          assert (Hnone : forall j, (i <= j)%nat -> nth_error (k_subs (ccl s)) j = None) by (intros j Hj; apply nth_error_None; lia).
+          split; [intros j p A B E; rewrite (Hnone j A) in E; discriminate|].
+          split; [intros j p A B E; rewrite (Hnone j A) in E; discriminate|reflexivity]. }
+      cbv zeta. destruct (ci_kid s i xi I Ei) as (v & Ev & [Hx Hiu]). destruct (pt q d PC HPC _ v Hx) as (T1 & T2 & T3).
+      destruct (snd (k_tig C (fst xi))) eqn:Et.
+      + (* the child was tightened: _cost = None, bounds() *)
+        destruct (ci_set_kid s i xi (fst (k_tig C (fst xi)), snd xi) v true I Ei Ev (conj T1 Hiu) eq_refl) as [Ia Ma]. cbv zeta in Ia, Ma.
+        cbn [fst] in Ma. specialize (T2 eq_refl).
+        set (sa := c_set_memo (c_set_subs s (set_nth i (fst (k_tig C (fst xi)), snd xi) (k_subs (ccl s)))) None) in *.
+        destruct (acoll_bounds_spec sa Ia) as (B1 & B2 & _ & _ & B5 & _).
+        rewrite (ci_err _ B1).
+        assert (Epa : k_pend (ccl sa) = k_pend (ccl s)) by (destruct s as [[c ius] err]; reflexivity).
+        destruct (tighter (snd (acoll_bounds C sa)) start).
+        * cbn [ForR]. split; [exact B1|lia].
+        * specialize (IH (S i) start (fst (acoll_bounds C sa)) true B1).
+          destruct (acoll_for C n (S i) start (fst (acoll_bounds C sa)) true) as [s'|s' tg']; cbn [ForR] in *.
+          -- destruct IH as [J1 J2]. split; [exact J1|lia].
+          -- destruct IH as (J1 & J2 & J3 & J4 & J5). split; [exact J1|]. split; [lia|]. split; [congruence|].
+             split; [intros _; right; lia|]. intros E. destruct (J5 E) as [Q _]. discriminate Q.
+      + (* the child is done: assert child.bounds().definitive() *)
+        destruct (T3 eq_refl) as (M1 & Eb & Ex). rewrite Eb. cbn [fst snd]. rewrite (zdefb_point v).
+        destruct (ci_set_kid s i xi (fst (k_tig C (fst xi)), snd xi) v false I Ei Ev (conj T1 Hiu) eq_refl) as [Ia Ma]. cbv zeta in Ia, Ma.
+        cbn [fst] in Ma.
+        set (s1 := c_set_subs s (set_nth i (fst (k_tig C (fst xi)), snd xi) (k_subs (ccl s)))) in *.
+        assert (Ep1 : k_pend (ccl s1) = k_pend (ccl s)) by (destruct s as [[c ius] err]; reflexivity).
+        assert (Es1 : k_subs (ccl s1) = set_nth i (fst (k_tig C (fst xi)), snd xi) (k_subs (ccl s))) by (destruct s as [[c ius] err]; reflexivity).
+        assert (Li : (i < length (k_subs (ccl s)))%nat) by (apply nth_error_Some; congruence).
+        specialize (IH (S i) start s1 tg Ia).
+        destruct (acoll_for C n (S i) start s1 tg) as [s'|s' tg']; cbn [ForR] in *.
+        * destruct IH as [J1 J2]. split; [exact J1|lia].
+        * destruct IH as (J1 & J2 & J3 & J4 & J5). split; [exact J1|]. split; [lia|]. split; [congruence|].
+          split; [intros E; destruct (J4 E) as [Q|Q]; [left; exact Q|right; lia]|].
+          intros E. destruct (J5 E) as (Q1 & Q2 & Q3 & Q4). split; [exact Q1|].
+          assert (Hother : forall j, j <> i -> nth_error (k_subs (ccl s1)) j = nth_error (k_subs (ccl s)) j).
+          { intros j Hj. rewrite Es1. apply nth_error_set_nth_neq. lia. }
+          split; [|split].
+          -- intros j p A B Hp. destruct (Nat.eq_dec j i) as [->|Ne].
+             ++ rewrite Ei in Hp. injection Hp as <-. exists v. split; [exact Ev|exact Ex].
+             ++ apply (Q2 j p); [lia|lia|]. rewrite (Hother j Ne). exact Hp.
+          -- intros j p A B Hp. destruct (Nat.eq_dec j i) as [->|Ne].
+             ++ rewrite (Q4 i (or_introl (Nat.lt_succ_diag_r i))), Es1, (nth_error_set_nth_eq _ _ _ Li) in Hp. injection Hp as <-.
+                exists v. split; [exact Ev|]. cbn [fst]. rewrite Eb. reflexivity.
+             ++ apply (Q3 j p); [lia|lia|exact Hp].
+          -- intros j Hj. rewrite (Q4 j ltac:(lia)). apply Hother. lia.
+  Qed.
+
+  (* ---------------------------------------------------------------- the `while True` loop of tighten_bounds() *)
+  Lemma pts_forall2 : forall s, CI s -> k_pend (ccl s) = None -> PtsAt (k_subs (ccl s)) 0 (length (k_subs (ccl s))) ->
+    Forall2 (fun p v => snd (k_bnd C (fst p)) = (v, v)) (k_subs (ccl s)) vs.
+  Proof.
+    intros s I Ep Hp. destruct (ci_split s I) as (vs1 & vs2 & Evs & Hsubs & Hpend). rewrite Ep in Hpend. destruct Hpend as [-> _].
+    rewrite app_nil_r in Evs. subst vs1.
+    apply Forall2_of_nth; [apply (Forall2_length' _ _ _ Hsubs)|].
+    intros i p v Hi Hv. destruct (Hp i p ltac:(lia) ltac:(apply nth_error_Some; congruence) Hi) as (v' & Ev' & Hb). congruence.
+  Qed.
+
+  Lemma ci_len_none : forall s, CI s -> k_pend (ccl s) = None -> length (k_subs (ccl s)) = length vs.
+  Proof.
+    intros s I Ep. destruct (ci_split s I) as (vs1 & vs2 & Evs & Hsubs & Hpend). rewrite Ep in Hpend. destruct Hpend as [-> _].
+    rewrite app_nil_r in Evs. subst vs1. apply (Forall2_length' _ _ _ Hsubs).
+  Qed.
+
+  Lemma untight_point : forall start, inr start Vc -> tighter (Vc, Vc) start = false -> start = (Vc, Vc).
+  Proof.
+    intros [lo hi] [A B] Ht. unfold tighter in Ht. cbn [fst snd] in *. apply orb_false_iff in Ht. destruct Ht as [H1 H2].
+    apply Z.ltb_ge in H1. apply Z.ltb_ge in H2. f_equal; lia.
+  Qed.
+
+  Lemma acoll_loop_spec : forall fuel start s mu0, CI s -> inr start Vc -> (cmu s < fuel)%nat -> (cmu s <= mu0)%nat ->
+    (cmu s = mu0 -> acoll_bounds C s = (s, start)) ->
+    CI (fst (acoll_loop C fuel start s)) /\
+    (snd (acoll_loop C fuel start s) = true -> (cmu (fst (acoll_loop C fuel start s)) < mu0)%nat) /\
+    (snd (acoll_loop C fuel start s) = false ->
+     (cmu (fst (acoll_loop C fuel start s)) <= mu0)%nat /\
+     acoll_bounds C (fst (acoll_loop C fuel start s)) = (fst (acoll_loop C fuel start s), (Vc, Vc)) /\ start = (Vc, Vc)).
+  Proof.
+    induction fuel as [|fuel IH]; intros start s mu0 I Hs Hf Hm Hst; [lia|].
+    cbn [acoll_loop]. cbv zeta.
+    destruct (acoll_expand_spec s I) as [Ie He].
+    (* the state the for loop starts from *)
+    assert (Hq : exists s2 r2, (if snd (acoll_expand C s) then acoll_is_tightened C start (fst (acoll_expand C s)) else (fst (acoll_expand C s), false)) = (s2, r2) /\
+                  CI s2 /\ (cmu s2 <= cmu s)%nat /\
+                  (r2 = true -> (cmu s2 < cmu s)%nat) /\
+                  (r2 = false -> ((cmu s2 < cmu s)%nat \/ (s2 = s /\ k_pend (ccl s) = None)) /\
+                                 (k_pend (ccl s2) <> None -> (cmu s2 < cmu s)%nat))).
+    { destruct (k_pend (ccl s)) as [[|x rest]|] eqn:Ep.
+      - destruct He as (E1 & E2 & E3). rewrite E1. eexists _, _. split; [reflexivity|]. split; [exact Ie|]. split; [lia|].
+        split; [discriminate|]. intros _. split; [left; exact E3|intros _; exact E3].
+      - destruct He as (E1 & E3). rewrite E1. rewrite (acoll_ist_spec start _ Ie).
+        destruct (acoll_bounds_spec _ Ie) as (B1 & B2 & _). eexists _, _. split; [reflexivity|]. split; [exact B1|]. split; [lia|].
+        split; [intros _; lia|]. intros _. split; [left; lia|intros _; lia].
+      - rewrite He. cbn [fst snd]. eexists _, _. split; [reflexivity|]. split; [exact I|]. split; [lia|]. split; [discriminate|].
+        intros _. split; [right; split; [reflexivity|first [exact Ep|reflexivity]]|]. intros Q. exfalso. apply Q. exact Ep. }
+    destruct Hq as (s2 & r2 & Eq2 & I2 & M2 & R2t & R2f). rewrite Eq2. cbn [fst snd].
+    destruct r2.
+    { cbn [fst snd]. split; [exact I2|]. split; [intros _; specialize (R2t eq_refl); lia|discriminate]. }
+    destruct (R2f eq_refl) as [Hprog Hpend2]. clear R2t R2f.
+    pose proof (acoll_for_spec (length (k_subs (ccl s2))) 0 start s2 false I2) as HF.
+    destruct (acoll_for C (length (k_subs (ccl s2))) 0 start s2 false) as [s3|s3 tg]; cbn [ForR] in HF.
+    { destruct HF as [J1 J2]. cbn [fst snd]. split; [exact J1|]. split; [intros _; lia|discriminate]. }
+    destruct HF as (J1 & J2 & J3 & J4 & J5).
+    destruct (k_pend (ccl s3)) as [l3|] eqn:Ep3.
+    { assert (P2 : (cmu s2 < cmu s)%nat) by (apply Hpend2; congruence).
+      apply (IH start s3 mu0 J1 Hs ltac:(lia) ltac:(lia)). intros Q. lia. }
+    destruct tg.
+    { destruct (J4 eq_refl) as [Q|Q]; [discriminate|].
+      apply (IH start s3 mu0 J1 Hs ltac:(lia) ltac:(lia)). intros Q'. lia. }
+    destruct (J5 eq_refl) as (_ & P1 & P3 & P4). cbn [Nat.add] in P1, P3.
+    rewrite (acoll_ist_spec start s3 J1).
+    destruct (acoll_bounds_spec s3 J1) as (B1 & B2 & _ & B4 & _).
+    assert (L3 : length (k_subs (ccl s3)) = length (k_subs (ccl s2))).
+    { rewrite (ci_len_none s3 J1 Ep3). rewrite (ci_len_none s2 I2 ltac:(congruence)). reflexivity. }
+    rewrite <- L3 in P3.
+    assert (Eb3 : snd (acoll_bounds C s3) = (Vc, Vc)) by (apply (acoll_bounds_points s3 J1 Ep3); apply (pts_forall2 s3 J1 Ep3 P3)).
+    rewrite Eb3. cbn [fst snd]. split; [exact B1|]. split.
+    - intros Ht. destruct Hprog as [Q|[-> Eps]]; [lia|].
+      destruct (Nat.eq_dec (cmu s) mu0) as [Em|Ne]; [|lia]. exfalso.
+      specialize (Hst Em). assert (Es : snd (acoll_bounds C s) = (Vc, Vc)) by (apply (acoll_bounds_points s I Eps); apply (pts_forall2 s I Eps P1)).
+      rewrite Hst in Es. cbn [snd] in Es. subst start. unfold tighter in Ht. cbn [fst snd] in Ht. rewrite !Z.ltb_irrefl in Ht. discriminate.
+    - intros Ht. split; [lia|]. split; [rewrite B4, Eb3; reflexivity|apply (untight_point start Hs Ht)].
+  Qed.
+
+  (* ---------------------------------------------------------------- tighten_bounds(), is_complete(), the class lemma *)
+  Lemma acoll_mu_eq : forall s : cstA, acoll_mu C (ccl s) = cmu s.
+  Proof. intros s. unfold acoll_mu, cmu, smu. rewrite mu_ops. reflexivity. Qed.
+
+  Lemma acoll_tig_spec : forall s, CI s ->
+    CI (fst (acoll_tig C s)) /\
+    (snd (acoll_tig C s) = true -> (cmu (fst (acoll_tig C s)) < cmu s)%nat) /\
+    (snd (acoll_tig C s) = false ->
+     (cmu (fst (acoll_tig C s)) <= cmu s)%nat /\
+     acoll_bounds C (fst (acoll_tig C s)) = (fst (acoll_tig C s), (Vc, Vc)) /\ snd (acoll_bounds C s) = (Vc, Vc)).
+  Proof.
+    intros s I. unfold acoll_tig. cbv zeta. rewrite (ci_valid s I). cbn [negb].
+    destruct (acoll_bounds_spec s I) as (B1 & B2 & B3 & B4 & _). rewrite (ci_err _ B1).
+    destruct (acoll_loop_spec (S (S (acoll_mu C (ccl (fst (acoll_bounds C s)))))) (snd (acoll_bounds C s)) (fst (acoll_bounds C s))
+                              (cmu (fst (acoll_bounds C s))) B1 B3 ltac:(rewrite acoll_mu_eq; lia) (le_n _) (fun _ => B4)) as (L1 & L2 & L3).
+    split; [exact L1|]. split; [intros Q; specialize (L2 Q); lia|].
+    intros Q. destruct (L3 Q) as (Q1 & Q2 & Q3). split; [lia|]. split; [exact Q2|exact Q3].
+  Qed.
+
+  Definition toA (ks : list ksub) (s : cstA) : ast := AColl ks (cius s) (ccl s) (cerr s).
+
+  Lemma bnd_coll : forall ks ius c err,
+    k_bnd (opsA q (S d)) (AColl ks ius c err) = (toA ks (fst (acoll_bounds C (c, ius, err))), snd (acoll_bounds C (c, ius, err))).
+  Proof. reflexivity. Qed.
+  Lemma tig_coll : forall ks ius c err,
+    k_tig (opsA q (S d)) (AColl ks ius c err) = (toA ks (fst (acoll_tig C (c, ius, err))), snd (acoll_tig C (c, ius, err))).
+  Proof. reflexivity. Qed.
+  Lemma cmp_coll : forall ks ius c err,
+    k_cmp (opsA q (S d)) (AColl ks ius c err) = (toA ks (fst (acoll_cmp C (c, ius, err))), snd (acoll_cmp C (c, ius, err))).
+  Proof. reflexivity. Qed.
+
+  Lemma toA_eta : forall ks (s : cstA), toA ks s = AColl ks (cius s) (ccl s) (cerr s).
+  Proof. reflexivity. Qed.
+
+  Lemma sp_err : forall l vs1, Forall2 SP l vs1 -> existsb (fun p => errA (fst p)) l = false.
+  Proof.
+    induction 1 as [|p v l vs1 [Hp _] _ IH]; [reflexivity|]. cbn [existsb]. rewrite IH.
+    pose proof (p_err CM PC HPC _ _ Hp) as E. cbn [AM ASt a_err] in E. rewrite E. reflexivity.
+  Qed.
+
+  Lemma ci_errA : forall ks s, CI s -> errA (toA ks s) = false.
+  Proof.
+    intros ks [[c ius] err] I. pose proof I as [IU IV IE (vs1 & vs2 & Evs & Hsubs & Hpend) IM]. csimp. unfold toA. csimp. cbn [errA].
+    rewrite IE, (sp_err _ _ Hsubs). destruct (k_pend c) as [l|]; [|reflexivity].
+    destruct Hpend as (Hl & _). rewrite (f2_err q d PC HPC _ _ Hl). reflexivity.
+  Qed.
+
+  Lemma coll_step : forall ks s, CI s ->
+    astep_ok (AM q (S d)) (fun t => exists s', t = toA ks s' /\ CI s') Vc (toA ks s).
+  Proof.
+    intros ks s I. unfold astep_ok. cbn [AM ASt a_bnd a_tig a_cmp a_eds a_err a_mu].
+    destruct (acoll_bounds_spec s I) as (B1 & B2 & B3 & B4 & _).
+    destruct (acoll_tig_spec s I) as (T1 & T2 & T3).
+    split; [apply ci_errA; exact I|].
+    assert (Hs : forall s0 : cstA, (s0 = (ccl s0, cius s0, cerr s0))) by (intros [[c0 i0] e0]; reflexivity).
+    assert (Hmu : forall s0 : cstA, muA (toA ks s0) = cmu s0) by (intros [[c0 i0] e0]; reflexivity).
+    split; [|split; [|split]].
+    - rewrite toA_eta, bnd_coll, <- (Hs s). cbn [fst snd]. rewrite !Hmu.
+      split; [eexists; split; [reflexivity|exact B1]|]. split; [exact B2|]. split; [exact B3|].
+      rewrite toA_eta, bnd_coll, <- (Hs (fst (acoll_bounds C s))), B4. reflexivity.
+    - rewrite toA_eta, tig_coll, <- (Hs s). cbn [fst snd]. rewrite !Hmu.
+      split; [eexists; split; [reflexivity|exact T1]|]. split; [exact T2|].
+      intros E. destruct (T3 E) as (Q1 & Q2 & Q3). split; [exact Q1|]. split.
+      + rewrite toA_eta, bnd_coll, <- (Hs (fst (acoll_tig C s))), Q2. reflexivity.
+      + rewrite bnd_coll, <- (Hs s). cbn [snd]. exact Q3.
+    - rewrite toA_eta, cmp_coll, <- (Hs s). cbn [fst]. rewrite !Hmu. unfold acoll_cmp. cbv zeta. rewrite (ci_valid s I). cbn [negb fst].
+      split; [eexists; split; [reflexivity|exact B1]|exact B2].
+    - rewrite toA_eta. cbn [listing fst]. replace (S d - 1)%nat with d by lia. rewrite <- (Hs s).
+      destruct (acoll_edits_spec s I) as (E1 & E2 & _). change (AColl ks (cius (acoll_edits C s)) (ccl (acoll_edits C s)) (cerr (acoll_edits C s))) with (toA ks (acoll_edits C s)).
+      rewrite !Hmu. split; [eexists; split; [reflexivity|exact E1]|exact E2].
+  Qed.
+End CollC.
+
 (* ================================================================ Part 6: calls addressed to sub-edits
    A structural invariant SI (by nesting depth): every sub-edit, at every level, is itself in the invariant of its
    class.  It is closed under every public call on the edit AND under every call addressed to a listed sub-edit
@@ -1509,8 +2757,11 @@ Fixpoint SI (q : bool) (d : nat) (s : ast) (v : Z) {struct d} : Prop :=
       | AFixed l rems inss err => err = false /\ exists vs, v = zsum vs + zsum rems + zsum inss /\ Forall2 (SI q d') l vs
       | AED sk p0 q0 e => exists K U rc ic mcs, EDH K U rc ic mcs /\ v = cc rc ic mcs (length ic) (length rc) /\
                                              FI q d' (SI q d') K U rc ic mcs e
-      | AColl ks ius c err => False
-      | AMSet ix m err => False
+      | AColl ks ius c err =>
+          exists U vs, Forall (fun x => 0 <= x) vs /\ v = zsum vs /\ CI (SI q d') U vs (c, ius, err)
+      | AMSet ix m err =>
+          err = false /\ exists rem ins cnt asg kvs evs, length evs = length rem /\ Forall (fun r => length r = length ins) evs /\
+                                                          v = Vv rem ins asg kvs evs /\ MI (SI q d') rem ins cnt asg kvs evs m
       end
   end.
 
@@ -1548,19 +2799,17 @@ Proof.
       pose proof HE as (Hd & Hrc & Hic & Hmc & HK0 & HK & HU).
       eapply astep_ok_mono; [|apply (ed_step q d (SI q d) IH K U rc ic mcs Hd Hrc Hic Hmc HK0 HK HU sk p0 q0 e HFI)].
       intros t (e' & -> & Hl). cbn [SI]. exists K, U, rc, ic, mcs. split; [exact HE|]. split; [reflexivity|exact Hl].
+    + destruct H as (U & vs & Hnn & -> & HC).
+      eapply astep_ok_mono; [|apply (coll_step q d (SI q d) IH U vs Hnn ks (c, ius, err) HC)].
+      intros t ([[c' ius'] err'] & -> & Hc'). unfold toA. cbn [ccl cius cerr fst snd SI]. exists U, vs. auto.
+    + destruct H as (-> & rem & ins & cnt & asg & kvs & evs & Hd1 & Hd2 & -> & HM).
+      eapply astep_ok_mono; [|apply (mset_step q d (SI q d) IH rem ins cnt asg kvs evs Hd1 Hd2 ix m HM)].
+      intros t (m' & -> & Hm'). cbn [SI]. split; [reflexivity|]. exists rem, ins, cnt, asg, kvs, evs.
+      split; [exact Hd1|]. split; [exact Hd2|]. split; [reflexivity|exact Hm'].
 Qed.
 
 Corollary si_contract : forall q d s v, SI q d s v -> AContract (AM q d) s v.
 Proof. intros q d s v H. exists (fun t => SI q d t v). split; [exact H|]. intros t Ht. apply si_step. exact Ht. Qed.
-
-Lemma Forall2_set_nth : forall {A B} (R : A -> B -> Prop) l l' i x y, Forall2 R l l' -> nth_error l' i = Some y -> R x y ->
-  Forall2 R (set_nth i x l) l'.
-Proof.
-  intros A B R l l' i x y H. revert i. induction H as [|a b l l' Hab Ht IH]; intros [|i] Hy Hx; cbn [nth_error set_nth] in *;
-    try discriminate.
-  - injection Hy as <-. constructor; assumption.
-  - constructor; [exact Hab|apply IH; assumption].
-Qed.
 
 Lemma si_const_any : forall q d c t, SI q d (AConst c t) c.
 Proof. intros q [|d] c t; reflexivity. Qed.
@@ -1599,6 +2848,32 @@ Proof.
       * injection Hx as <-. eexists. split; [apply si_const_any|]. intros x' _. cbn [sub_put]. rewrite Ed, Lp, Ea. exact Hs.
       * destruct (Nat.ltb (i - p0 - length (fed_alignment e)) q0); [|discriminate].
         injection Hx as <-. eexists. split; [apply si_const_any|]. intros x' _. cbn [sub_put]. rewrite Ed, Lp, Ea. exact Hs.
+  - destruct H as (U & vs & Hnn & -> & HC). destruct (k_pend c) eqn:Ep; [discriminate|].
+    destruct (nth_error (k_subs c) i) as [p|] eqn:Ei; [|discriminate]. injection Hx as <-.
+    destruct (ci_kid (SI q d) U vs (c, ius, err) i p HC Ei) as (vx & Ev & [Hp Hiu]). exists vx. split; [exact Hp|].
+    intros x' Hx'. cbn [sub_put]. rewrite Ep, Ei.
+    destruct (ci_set_kid (SI q d) U vs (c, ius, err) i p (x', snd p) vx false HC Ei Ev (conj Hx' Hiu) eq_refl) as [Hc' _].
+    cbv zeta in Hc'. cbn [ccl cius cerr c_set_subs fst snd] in Hc'. cbn [SI]. exists U, vs. auto.
+  - destruct H as (-> & rem & ins & cnt & asg & kvs & evs & Hd1 & Hd2 & -> & HM).
+    assert (Hs : forall m', MI (SI q d) rem ins cnt asg kvs evs m' -> SI q (S d) (AMSet ix m' false) (Vv rem ins asg kvs evs)).
+    { intros m' Hm'. cbn [SI]. split; [reflexivity|]. exists rem, ins, cnt, asg, kvs, evs. auto. }
+    destruct (m_match m) as [mt|] eqn:Em; [|discriminate]. cbv zeta in Hx.
+    destruct (Nat.ltb i (length (x_exact ix))) eqn:L0.
+    { injection Hx as <-. eexists. split; [apply si_const_any|]. intros x' _. cbn [sub_put]. rewrite Em. cbv zeta. rewrite L0. apply Hs. exact HM. }
+    destruct (Nat.ltb i (length (x_exact ix) + length (m_kvp m))) eqn:L1.
+    { destruct (Forall2_nth_error _ _ _ _ _ (mi_kvp _ _ _ _ _ _ _ _ HM) Hx) as (vx & Ev & Hv). exists vx. split; [exact Hv|].
+      intros x' Hx'. cbn [sub_put]. rewrite Em. cbv zeta. rewrite L0, L1. apply Hs. apply mi_kvp_upd; [exact HM|].
+      apply (Forall2_set_nth _ _ _ _ _ _ (mi_kvp _ _ _ _ _ _ _ _ HM) Ev Hx'). }
+    destruct (Nat.ltb i (length (x_exact ix) + length (m_kvp m) + length mt)) eqn:L2.
+    { destruct (nth_error mt (i - length (x_exact ix) - length (m_kvp m))) as [ij|] eqn:Eij; [|discriminate].
+      exists (mcv evs (fst ij) (snd ij)). split; [apply (e_get _ _ _ _ _ _ (mi_edges _ _ _ _ _ _ _ _ HM) Hx)|].
+      intros x' Hx'. cbn [sub_put]. rewrite Em. cbv zeta. rewrite L0, L1, L2, Eij, Hx. apply Hs. apply mi_edges_upd; [exact HM|].
+      apply (e_set2 _ _ _ _ _ _ _ (mi_edges _ _ _ _ _ _ _ _ HM) Hx Hx'). }
+    assert (Hput : forall x', SI q (S d) (sub_put (AMSet ix m false) i x') (Vv rem ins asg kvs evs)).
+    { intros x'. cbn [sub_put]. rewrite Em. cbv zeta. rewrite L0, L1, L2. apply Hs. exact HM. }
+    destruct (nth_error (unm_rows m mt) _) as [r|]; [injection Hx as <-; eexists; split; [apply si_const_any|intros; apply Hput]|].
+    destruct (nth_error (unm_cols m mt) _) as [c0|]; [|discriminate].
+    injection Hx as <-. eexists. split; [apply si_const_any|intros; apply Hput].
 Qed.
 
 Lemma si_sub0 : forall q s v i, SI q O s v -> sub_get s i = None.
@@ -1652,8 +2927,8 @@ Proof.
   - apply IH. intros y Hy. apply Hh. right. exact Hy.
 Qed.
 (* which documents the closing induction covers (the classes whose invariant is proved) *)
-Definition COV_MSET : bool := false.
-Definition COV_FDICT : bool := false.
+Definition COV_MSET : bool := true.
+Definition COV_FDICT : bool := true.
 Fixpoint covered (t : tree) : bool :=
   match t with
   | Leaf _ => true
@@ -1663,6 +2938,97 @@ Fixpoint covered (t : tree) : bool :=
   | FDict cs => COV_FDICT && forallb covered cs
   end.
 
+(* documents without DictNode / MultiSetNode (lists, strings, scalars, key/value pairs, FixedKeyDictNodes: what the loaders
+   build under the dictionary strategy `none`): the domain of the final-cost theorem *)
+Fixpoint msetfree (t : tree) : bool :=
+  match t with
+  | Leaf _ => true
+  | Lst _ _ cs => forallb msetfree cs
+  | Kvp _ k v => msetfree k && msetfree v
+  | MSet _ _ => false
+  | FDict cs => forallb msetfree cs
+  end.
+
+Lemma forallb_Forall_impl : forall (cv : tree -> bool) (P : tree -> Prop) cs,
+  Forall (fun c => cv c = true -> P c) cs -> forallb cv cs = true -> Forall P cs.
+Proof.
+  intros cv P cs H Hc. induction H as [|c cs Hc0 _ IH]; constructor; cbn [forallb] in Hc; apply andb_true_iff in Hc; destruct Hc as [C1 C2].
+  - apply Hc0. exact C1.
+  - apply IH. exact C2.
+Qed.
+
+Lemma mcv_nonneg : forall evs i j, Forall (Forall (fun x => 0 <= x)) evs -> 0 <= mcv evs i j.
+Proof.
+  intros evs i j H. unfold mcv. destruct (Nat.lt_ge_cases i (length evs)) as [Li|Li].
+  - assert (Hr : Forall (fun x => 0 <= x) (nth i evs [])) by (rewrite Forall_forall in H; apply H; apply nth_In; exact Li).
+    destruct (Nat.lt_ge_cases j (length (nth i evs []))) as [Lj|Lj].
+    + rewrite Forall_forall in Hr. apply Hr. apply nth_In. exact Lj.
+    + rewrite nth_overflow by exact Lj. lia.
+  - rewrite (nth_overflow evs [] Li). destruct j; cbn; lia.
+Qed.
+
+Lemma nth_nonneg : forall (l : list Z) i, Forall (fun x => 0 <= x) l -> 0 <= nth i l 0.
+Proof.
+  intros l i H. destruct (Nat.lt_ge_cases i (length l)) as [L|L]; [rewrite Forall_forall in H; apply H; apply nth_In; exact L|].
+  rewrite nth_overflow by exact L. lia.
+Qed.
+
+Lemma F2_rows_len : forall {A B} (R : A -> B -> Prop) (e : list (list A)) (evs : list (list B)) k,
+  Forall2 (Forall2 R) e evs -> Forall (fun row => length row = k) e -> Forall (fun r => length r = k) evs.
+Proof.
+  intros A B R e evs k H. induction H as [|row vrow e evs Hrow _ IH]; intros Hl; constructor; inversion Hl; subst.
+  - rewrite <- (Forall2_length' _ _ _ Hrow). reflexivity.
+  - apply IH. assumption.
+Qed.
+
+(* MultiSetEdit.__init__ over pre-matched edits and edges that are good *)
+Lemma goodv_mset : forall ix kv edges rem ins cnt asg kvs evs,
+  Forall2 GoodV kv kvs -> Forall2 (Forall2 GoodV) edges evs ->
+  length edges = length rem -> Forall (fun row => length row = length ins) edges ->
+  Forall (fun x => 0 <= x) rem -> Forall (fun x => 0 <= x) ins ->
+  GoodV (AMSet ix (mk_mset kv edges rem ins false None None cnt asg) false) (Vv rem ins asg kvs evs).
+Proof.
+  intros ix kv edges rem ins cnt asg kvs evs Hkv Hed L1 L2 Hrem Hins. split.
+  - unfold Vv, Wv, UCv, UCc.
+    assert (N1 : Forall (fun x => 0 <= x) kvs) by (clear - Hkv; induction Hkv as [|x v l vs (Hv & _) _ IH]; constructor; assumption).
+    assert (N2 : Forall (Forall (fun x => 0 <= x)) evs).
+    { clear - Hed. induction Hed as [|row vrow e evs Hrow _ IH]; constructor; [|exact IH].
+      clear - Hrow. induction Hrow as [|x v l vs (Hv & _) _ IH]; constructor; assumption. }
+    pose proof (zsum_nonneg _ N1) as Z1.
+    assert (Z2 : 0 <= zsum (map (ev evs) (ch rem ins asg))) by (apply zsum_map_nonneg; intros p; unfold ev; apply mcv_nonneg; exact N2).
+    assert (Z3 : forall l, 0 <= zsum (map (fun i => nth i rem 0) l)) by (intros l; apply zsum_map_nonneg; intros i; apply nth_nonneg; exact Hrem).
+    assert (Z4 : forall l, 0 <= zsum (map (fun j => nth j ins 0) l)) by (intros l; apply zsum_map_nonneg; intros i; apply nth_nonneg; exact Hins).
+    specialize (Z3 (unm (map fst (ch rem ins asg)) (length rem))). specialize (Z4 (unm (map snd (ch rem ins asg)) (length ins))). lia.
+  - intros q d Hd. cbn [aheight m_kvp m_edges] in Hd. destruct d as [|d]; [lia|]. cbn [SI]. split; [reflexivity|].
+    exists rem, ins, cnt, asg, kvs, evs.
+    split; [rewrite <- (Forall2_length' _ _ _ Hed); exact L1|]. split; [apply (F2_rows_len _ _ _ _ Hed L2)|]. split; [reflexivity|].
+    constructor; cbn [m_rem m_ins m_counts m_asg m_kvp m_edges m_match m_memo]; try reflexivity; try (left; reflexivity).
+    + apply goodv_kids; [exact Hkv|lia].
+    + eapply Forall2_impl2; [|exact Hed]. intros row vrow Hrow HF. cbv beta. apply goodv_kids; [exact HF|].
+      pose proof (amax_ge _ _ (in_map (fun row => ApiModel.nat_max_list (map aheight row)) edges _ Hrow)) as M1. lia.
+Qed.
+
+(* initial_bounds.upper_bound of a good edit is at least its value *)
+Lemma goodv_ub : forall x v, GoodV x v -> v <= ubA x.
+Proof.
+  intros x v [_ H]. unfold ubA. specialize (H true (aheight x) (le_n _)).
+  destruct (si_step true (aheight x) x v H) as (_ & (_ & _ & B3 & _) & _). cbn [AM a_bnd] in B3. apply B3.
+Qed.
+
+(* EditCollection.__init__ (FixedKeyDictNodeEdit) over good edits whose initial upper bounds fit cost_upper_bound *)
+Lemma goodv_coll : forall ks kids vs U, Forall2 GoodV kids vs -> zsum (map ubA kids) <= U ->
+  GoodV (AColl ks (map ubA kids) (mk_coll U (Some kids) [] None true) false) (zsum vs).
+Proof.
+  intros ks kids vs U H HU.
+  assert (N : Forall (fun x => 0 <= x) vs) by (clear - H; induction H as [|x v l vs (Hv & _) _ IH]; constructor; assumption).
+  split; [apply zsum_nonneg; exact N|].
+  intros q d Hd. cbn [aheight k_pend k_subs] in Hd. destruct d as [|d]; [lia|]. cbn [SI]. exists U, vs. split; [exact N|]. split; [reflexivity|].
+  constructor; cbn [ccl cius cerr k_U k_valid k_pend k_subs k_cost fst snd]; try reflexivity; [|left; reflexivity].
+  exists [], vs. split; [reflexivity|]. split; [constructor|]. split; [apply goodv_kids; [exact H|cbn [map ApiModel.nat_max_list] in Hd; lia]|].
+  split; [|cbn [map zsum fold_right]; lia].
+  clear - H. induction H as [|x v l vs Hx _ IH]; cbn [map]; constructor; [apply goodv_ub; exact Hx|exact IH].
+Qed.
+
 Section OrcA.
 Variable orc : oracle.
 Notation initA := (ApiModel.initA orc).
@@ -1671,11 +3037,7 @@ Definition PgoodU (a : tree) : Prop := forall b s, initA a b = Some s -> exists 
 Definition PgoodA (a : tree) : Prop := covered a = true -> PgoodU a.
 
 Lemma covered_forall : forall (P : tree -> Prop) cs, Forall (fun c => covered c = true -> P c) cs -> forallb covered cs = true -> Forall P cs.
-Proof.
-  intros P cs H Hc. induction H as [|c cs Hc0 _ IH]; constructor; cbn [forallb] in Hc; apply andb_true_iff in Hc; destruct Hc as [C1 C2].
-  - apply Hc0. exact C1.
-  - apply IH. exact C2.
-Qed.
+Proof. intros P cs. apply (forallb_Forall_impl covered P cs). Qed.
 
 Lemma const_tag_of_nonneg : forall a b c t, const_tag_of a b = Some (c, t) -> 0 <= c.
 Proof.
@@ -1912,31 +3274,94 @@ Proof.
       destruct (if node_eqb v v' then _ else _) as [y|]; [|discriminate]. injection H as <-.
       destruct (Hk x eq_refl) as (w1 & G1). destruct (Hv y eq_refl) as (w2 & G2).
       exists (zsum [w1; w2]). apply goodv_sum. constructor; [exact G1|]. constructor; [exact G2|constructor].
-  - intros amk cs IH Hcov. cbn [covered] in Hcov. unfold COV_MSET in Hcov. discriminate.
-  - intros cs IH Hcov. cbn [covered] in Hcov. unfold COV_FDICT in Hcov. discriminate.
+  - intros amk cs IH0 Hcov b s H. cbn [covered] in Hcov. unfold COV_MSET in Hcov. cbn [andb] in Hcov.
+    pose proof (covered_forall PgoodU cs IH0 Hcov) as IH.
+    cbn [ApiModel.initA] in H. destruct (const_tag_of (MSet amk cs) b) as [[c t]|] eqn:Ec.
+    + injection H as <-. eexists. apply goodv_const. apply (const_tag_of_nonneg _ _ _ _ Ec).
+    + destruct b as [y| | |amk' ds|]; try discriminate. cbv zeta in H.
+      destruct (negb _); [discriminate|].
+      destruct (all_some_l (map _ (if amk then _ else _))) as [kv|] eqn:Ek; [|discriminate].
+      destruct (all_some_l (map _ (filter _ (filter _ (seq 0 (length cs)))))) as [edges|] eqn:Ee; [|discriminate].
+      injection H as <-.
+      assert (G : forall i j x, match mget (map (fun c => map (fun d => initA c d) ds) cs) i j with Some (Some s) => Some s | _ => None end = Some x ->
+                                exists v, GoodV x v).
+      { intros i j x Hx. destruct (mget _ i j) as [[s'|]|] eqn:Em; try discriminate. injection Hx as ->.
+        destruct (mget_initA_matrix _ _ _ _ _ Em) as (c0 & d0 & E1 & _ & E3).
+        rewrite Forall_forall in IH. apply (IH c0 (nth_error_In _ _ E1) d0 _ (eq_sym E3)). }
+      destruct (values_row kv) as (kvs & Hkvs).
+      { apply Forall_forall. intros x Hx. destruct (In_nth_error _ _ Hx) as [i Ei].
+        pose proof (all_some_l_nth _ _ _ _ Ek Ei) as H1. rewrite nth_error_map in H1.
+        destruct (nth_error (if amk then _ else _) i) as [[i0 j0]|]; [|discriminate]. cbn [option_map fst snd] in H1.
+        injection H1 as H1. apply (G i0 j0 x H1). }
+      destruct (values_matrix edges) as (evs & Hevs).
+      { apply Forall_forall. intros row Hrow. apply Forall_forall. intros x Hx.
+        destruct (In_nth_error _ _ Hrow) as [r Er]. destruct (In_nth_error _ _ Hx) as [c Ec'].
+        pose proof (all_some_l_nth _ _ _ _ Ee Er) as H1. rewrite nth_error_map in H1.
+        destruct (nth_error (filter _ (filter _ (seq 0 (length cs)))) r) as [i0|]; [|discriminate]. cbn [option_map] in H1. injection H1 as H1.
+        pose proof (all_some_l_nth _ _ _ _ H1 Ec') as H2. rewrite nth_error_map in H2.
+        destruct (nth_error (filter _ (filter _ (seq 0 (length ds)))) c) as [j0|]; [|discriminate]. cbn [option_map] in H2. injection H2 as H2.
+        apply (G i0 j0 x H2). }
+      eexists. apply (goodv_mset _ kv edges _ _ _ _ kvs evs Hkvs Hevs).
+      * rewrite (all_some_l_length _ _ Ee), !map_length. reflexivity.
+      * apply Forall_forall. intros row Hrow. destruct (In_nth_error _ _ Hrow) as [r Er].
+        pose proof (all_some_l_nth _ _ _ _ Ee Er) as H1. rewrite nth_error_map in H1.
+        destruct (nth_error (filter _ (filter _ (seq 0 (length cs)))) r) as [i0|]; [|discriminate]. cbn [option_map] in H1. injection H1 as H1.
+        rewrite (all_some_l_length _ _ H1), !map_length. reflexivity.
+      * apply Forall_forall. intros x Hx. apply in_map_iff in Hx. destruct Hx as (i & <- & _).
+        rewrite remove_cost_eq. pose proof (size_nonneg (nth i cs dummy)). lia.
+      * apply Forall_forall. intros x Hx. apply in_map_iff in Hx. destruct Hx as (j & <- & _).
+        rewrite insert_cost_eq. pose proof (size_nonneg (nth j ds dummy)). lia.
+  - intros cs IH0 Hcov b s H. cbn [covered] in Hcov. unfold COV_FDICT in Hcov. cbn [andb] in Hcov.
+    pose proof (covered_forall PgoodU cs IH0 Hcov) as IH.
+    cbn [ApiModel.initA] in H. destruct (const_tag_of (FDict cs) b) as [[c t]|] eqn:Ec.
+    + injection H as <-. eexists. apply goodv_const. apply (const_tag_of_nonneg _ _ _ _ Ec).
+    + destruct b as [y| | | |ds]; try discriminate. cbv zeta in H.
+      destruct (_ || _); [discriminate|]. destruct (all_some_l _) as [sh|] eqn:Es; [|discriminate].
+      destruct (_ <=? _) eqn:Eb; [|discriminate]. injection H as <-. apply Z.leb_le in Eb.
+      match type of Eb with zsum (map ubA ?K) <= _ => destruct (values_row K) as (vs & Hvs) end.
+      { apply Forall_app. split; [|apply Forall_app; split].
+        - apply Forall_forall. intros x Hx. destruct (In_nth_error _ _ Hx) as [i Ei].
+          pose proof (all_some_l_nth _ _ _ _ Es Ei) as H1. rewrite nth_error_map in H1.
+          destruct (nth_error (flat_map _ _) i) as [[i0 j0]|]; [|discriminate]. cbn [option_map fst snd] in H1.
+          destruct (node_eqb _ _); [injection H1 as <-; eexists; apply goodv_const; lia|].
+          destruct (mget _ i0 j0) as [[s'|]|] eqn:Em; try discriminate. injection H1 as ->.
+          destruct (mget_initA_matrix _ _ _ _ _ Em) as (c0 & d0 & E1 & _ & E3).
+          rewrite Forall_forall in IH. apply (IH c0 (nth_error_In _ _ E1) d0 _ (eq_sym E3)).
+        - apply Forall_forall. intros x Hx. apply in_map_iff in Hx. destruct Hx as (i & <- & _). eexists. apply goodv_const.
+          rewrite remove_cost_eq. pose proof (size_nonneg (nth i cs dummy)). lia.
+        - apply Forall_forall. intros x Hx. apply in_map_iff in Hx. destruct Hx as (j & <- & _). eexists. apply goodv_const.
+          rewrite insert_cost_eq. pose proof (size_nonneg (nth j ds dummy)). lia. }
+      eexists. apply (goodv_coll _ _ vs _ Hvs Eb).
+Qed.
+
+Lemma covered_all : forall a, covered a = true.
+Proof.
+  apply tree_rect'; intros; cbn [covered]; unfold COV_MSET, COV_FDICT; cbn [andb]; try reflexivity;
+    try (apply forallb_forall; intros x Hx; match goal with H : Forall _ _ |- _ => rewrite Forall_forall in H; apply H; exact Hx end).
+  apply andb_true_iff. split; assumption.
 Qed.
 
 (* ================================================================ the property for the modelled fragment
    For every pair of documents whose edit the model covers, every history of calls on the edit returned by a.edits(b)
    and both settings of DEFAULT_PRINTER.quiet: no call raises, every call is answered, and completion yields the same
    final cost v - a value that depends on the pair only. *)
-Theorem C05_model : forall a b s, covered a = true -> initA a b = Some s -> exists v, 0 <= v /\
+Theorem C05_model : forall a b s, initA a b = Some s -> exists v, 0 <= v /\
   forall (quiet : bool) (h : history),
     existsb is_err (snd (run_hist quiet (aheight s) h s)) = false /\
     length (snd (run_hist quiet (aheight s) h s)) = length h /\
     finish_cost quiet (aheight s) (fst (run_hist quiet (aheight s) h s)) = Some v.
 Proof.
-  intros a b s Hcov H. destruct (initA_good a Hcov b s H) as (v & Hv & Hg). exists v. split; [exact Hv|].
+  intros a b s H. destruct (initA_good a (covered_all a) b s H) as (v & Hv & Hg). exists v. split; [exact Hv|].
   intros quiet h. destruct (si_history quiet (aheight s) v h s (Hg quiet (aheight s) (le_n _))) as (_ & A & B & C0).
   auto.
 Qed.
 
 (* the status flag is irrelevant: both settings end every history with the same final cost *)
-Corollary C05_quiet : forall a b s, covered a = true -> initA a b = Some s -> forall (h1 h2 : history),
+Corollary C05_quiet : forall a b s, initA a b = Some s -> forall (h1 h2 : history),
   finish_cost true (aheight s) (fst (run_hist true (aheight s) h1 s)) =
   finish_cost false (aheight s) (fst (run_hist false (aheight s) h2 s)).
 Proof.
-  intros a b s Hcov H h1 h2. destruct (C05_model a b s Hcov H) as (v & _ & Hv).
+  intros a b s H h1 h2. destruct (C05_model a b s H) as (v & _ & Hv).
   destruct (Hv true h1) as (_ & _ & ->). destruct (Hv false h2) as (_ & _ & ->). reflexivity.
 Qed.
 
@@ -1975,7 +3400,7 @@ Example ex_instance : exists v, 0 <= v /\ forall quiet (h : history),
   existsb is_err (snd (run_hist quiet (aheight ex_s) h ex_s)) = false /\
   length (snd (run_hist quiet (aheight ex_s) h ex_s)) = length h /\
   finish_cost quiet (aheight ex_s) (fst (run_hist quiet (aheight ex_s) h ex_s)) = Some v.
-Proof. apply (C05_model [] ex_a ex_b ex_s); [reflexivity|apply ex_modelled]. Qed.
+Proof. apply (C05_model [] ex_a ex_b ex_s). apply ex_modelled. Qed.
 
 (* a sub-edit addressed through a listing (calls on sub-edits are part of the model and of the correspondence run) *)
 Example ex_sub_edit :
@@ -1986,14 +3411,6 @@ Proof. vm_compute. reflexivity. Qed.
 (* ================================================================ Part 5: the value is the cost of the big-step script
    Whenever the big-step model of the final script (ScriptModel.script, the model C01/C03 are about, tied to the code by
    exact correspondence) yields a script e for the pair, the value of the contract is cost e. *)
-Lemma Forall2_of_nth : forall {A B} (R : A -> B -> Prop) l l', length l = length l' ->
-  (forall i x y, nth_error l i = Some x -> nth_error l' i = Some y -> R x y) -> Forall2 R l l'.
-Proof.
-  intros A B R. induction l as [|a l IH]; intros [|b l'] Hl H; cbn [length] in Hl; try discriminate; constructor.
-  - apply (H O a b); reflexivity.
-  - apply IH; [lia|]. intros i x y Hx Hy. apply (H (S i) x y); assumption.
-Qed.
-
 Lemma script_dispatch : forall ale alsl cs b,
   list_dispatch_gen (match b with Lst _ _ _ => true | _ => false end)
     ((fix go (xs ys : list tree) : bool :=
@@ -2011,7 +3428,7 @@ Variable orc : oracle.
 Notation initA := (ApiModel.initA orc).
 Definition PcostU (a : tree) : Prop :=
   forall b s O pa pb e, initA a b = Some s -> script O pa pb a b = OK e -> GoodV s (cost e).
-Definition PcostA (a : tree) : Prop := covered a = true -> PcostU a.
+Definition PcostA (a : tree) : Prop := msetfree a = true -> PcostU a.
 
 Lemma cost_const_tag : forall a b c t O pa pb e, const_tag_of a b = Some (c, t) -> script O pa pb a b = OK e -> cost e = c.
 Proof.
@@ -2172,14 +3589,14 @@ Proof.
       * rewrite middle_map, !map_length. reflexivity.
       * apply Forall_forall. intros row Hrow. apply in_map_iff in Hrow. destruct Hrow as (d & <- & _).
         rewrite middle_map, !map_length. reflexivity.
-  - intros ale alsl cs IH0 Hcov b s O pa pb e H Hs. cbn [covered] in Hcov. pose proof (covered_forall PcostU cs IH0 Hcov) as IH.
+  - intros ale alsl cs IH0 Hcov b s O pa pb e H Hs. cbn [msetfree] in Hcov. pose proof (forallb_Forall_impl msetfree PcostU cs IH0 Hcov) as IH.
     cbn [ApiModel.initA] in H. destruct (const_tag_of (Lst ale alsl cs) b) as [[c t]|] eqn:Ec.
     + injection H as <-. rewrite (cost_const_tag _ _ _ _ _ _ _ _ Ec Hs). apply goodv_const. apply (const_tag_of_nonneg _ _ _ _ Ec).
     + cbn [script] in Hs. rewrite script_dispatch in Hs.
       destruct (list_dispatch (Lst ale alsl cs) b) eqn:Ed; try discriminate.
       * apply (cost_list_fixed O pa pb cs (match b with Lst _ _ ds => ds | _ => [] end) s e IH H Hs).
       * apply (cost_list_ed O pa pb ale alsl cs b penalty s e IH Ed H Hs).
-  - intros ake k v IHk0 IHv0 Hcov b s O pa pb e H Hs. cbn [covered] in Hcov. apply andb_true_iff in Hcov. destruct Hcov as [Ck Cv].
+  - intros ake k v IHk0 IHv0 Hcov b s O pa pb e H Hs. cbn [msetfree] in Hcov. apply andb_true_iff in Hcov. destruct Hcov as [Ck Cv].
     pose proof (IHk0 Ck) as IHk. pose proof (IHv0 Cv) as IHv. cbn [ApiModel.initA] in H. destruct (const_tag_of (Kvp ake k v) b) as [[c t]|] eqn:Ec.
     + injection H as <-. rewrite (cost_const_tag _ _ _ _ _ _ _ _ Ec Hs). apply goodv_const. apply (const_tag_of_nonneg _ _ _ _ Ec).
     + destruct b as [y| |ake' k' v'| |]; try discriminate. cbn [script] in Hs. cbn [const_tag_of] in Ec.
@@ -2201,12 +3618,51 @@ Proof.
       injection Hs as <-. cbn [cost].
       replace (cost e1 + cost e2) with (zsum [cost e1; cost e2]) by (cbn; lia).
       apply goodv_sum. constructor; [apply (Hk x e1 eq_refl eq_refl)|]. constructor; [apply (Hv y e2 eq_refl eq_refl)|constructor].
-  - intros amk cs IH Hcov. cbn [covered] in Hcov. unfold COV_MSET in Hcov. discriminate.
-  - intros cs IH Hcov. cbn [covered] in Hcov. unfold COV_FDICT in Hcov. discriminate.
+  - intros amk cs IH Hcov. cbn [msetfree] in Hcov. discriminate.
+  - intros cs IH0 Hcov b s O pa pb e H Hs. cbn [msetfree] in Hcov. pose proof (forallb_Forall_impl msetfree PcostU cs IH0 Hcov) as IH.
+    cbn [ApiModel.initA] in H. destruct (const_tag_of (FDict cs) b) as [[c t]|] eqn:Ec.
+    + injection H as <-. rewrite (cost_const_tag _ _ _ _ _ _ _ _ Ec Hs). apply goodv_const. apply (const_tag_of_nonneg _ _ _ _ Ec).
+    + destruct b as [y| | | |ds]; try discriminate. cbv zeta in H. cbn [script] in Hs. cbn [const_tag_of] in Ec.
+      destruct (_ || _) eqn:Econd in Ec; [discriminate|]. rewrite Econd in Hs. clear Ec.
+      unfold fixed_dict_script in Hs. cbv zeta in Hs. unfold fixed_dict_removals_in_hash_order in H, Hs. cbn [orb] in H.
+      destruct (negb _); [discriminate|]. destruct (all_some_l _) as [sh|] eqn:Es; [|discriminate].
+      destruct (_ <=? _) eqn:Eb in H; [|discriminate]. injection H as <-. apply Z.leb_le in Eb.
+      destruct (all_some _) as [sh'|] eqn:Ep; [|discriminate]. destruct (_ <=? _) in Hs; [|discriminate]. injection Hs as <-. cbn [cost].
+      apply goodv_coll; [|exact Eb]. rewrite !map_app.
+      apply f2_app; [|apply f2_app].
+      * apply Forall2_of_nth.
+        -- rewrite map_length, (all_some_l_length _ _ Es), (all_some_length _ _ Ep), !map_length. reflexivity.
+        -- intros i x y Hx Hy.
+           pose proof (all_some_l_nth _ _ _ _ Es Hx) as H1. rewrite nth_error_map in H1.
+           rewrite nth_error_map in Hy. destruct (nth_error sh' i) as [sb|] eqn:Esb; [|discriminate]. injection Hy as <-.
+           apply all_some_spec in Ep.
+           assert (H2 : nth_error (map (fun ij : nat * nat =>
+                          if node_eqb (nth (fst ij) cs dummy) (nth (snd ij) ds dummy) then Some (SPair (fst ij) (snd ij) (EMatch 0))
+                          else match mget (sub_matrix O pa pb cs ds) (fst ij) (snd ij) with
+                               | Some (OK e) => Some (SPair (fst ij) (snd ij) e) | _ => None end)
+                          (flat_map (fun i => match find_index (fun d => node_eqb (kvp_key (nth i cs dummy)) (kvp_key d)) ds 0 with
+                                              | Some j => [(i, j)] | None => [] end) (seq 0 (length cs)))) i = Some (Some sb)).
+           { unfold sub_matrix. rewrite Ep. rewrite nth_error_map, Esb. reflexivity. }
+           rewrite nth_error_map in H2.
+           destruct (nth_error (flat_map _ _) i) as [[i0 j0]|]; [|discriminate]. cbn [option_map fst snd] in H1, H2.
+           destruct (node_eqb (nth i0 cs dummy) (nth j0 ds dummy)).
+           ++ injection H1 as <-. injection H2 as <-. cbn [sub_cost cost]. apply goodv_const. lia.
+           ++ destruct (mget (map _ cs) i0 j0) as [[s'|]|] eqn:Em; try discriminate. injection H1 as ->.
+              destruct (mget_initA_matrix orc _ _ _ _ _ Em) as (c0 & d0 & E1 & E2 & E3).
+              destruct (mget (sub_matrix O pa pb cs ds) i0 j0) as [[e'|]|] eqn:Em2; try discriminate. injection H2 as <-.
+              destruct (mget_sub_matrix _ _ _ _ _ _ _ _ Em2) as (c1 & d1 & F1 & F2 & F3).
+              rewrite E1 in F1. injection F1 as <-. rewrite E2 in F2. injection F2 as <-.
+              rewrite Forall_forall in IH. cbn [sub_cost]. apply (IH c0 (nth_error_In _ _ E1) d0 x O _ _ e' (eq_sym E3) (eq_sym F3)).
+      * rewrite !map_map. cbn [sub_cost].
+        match goal with |- Forall2 _ (map _ ?L) _ => generalize L end. intros l0. induction l0 as [|i l0 IHL]; cbn [map]; constructor; [|exact IHL].
+        apply goodv_const. rewrite remove_cost_eq. pose proof (size_nonneg (nth i cs dummy)). lia.
+      * rewrite !map_map. cbn [sub_cost].
+        match goal with |- Forall2 _ (map _ ?L) _ => generalize L end. intros l0. induction l0 as [|j l0 IHL]; cbn [map]; constructor; [|exact IHL].
+        apply goodv_const. rewrite insert_cost_eq. pose proof (size_nonneg (nth j ds dummy)). lia.
 Qed.
 
 (* the property with the big-step final cost: every history, both flag settings *)
-Theorem C05_model_cost : forall a b s O pa pb e, covered a = true -> initA a b = Some s -> script O pa pb a b = OK e ->
+Theorem C05_model_cost : forall a b s O pa pb e, msetfree a = true -> initA a b = Some s -> script O pa pb a b = OK e ->
   forall (quiet : bool) (h : history),
     existsb is_err (snd (run_hist quiet (aheight s) h s)) = false /\
     length (snd (run_hist quiet (aheight s) h s)) = length h /\
@@ -2221,3 +3677,44 @@ End OrcB.
 Example ex_script_cost : exists e, script (Build_oracle [] []) [] [] ex_a ex_b = OK e /\ cost e = 10.
 Proof. eexists. split; [vm_compute; reflexivity|reflexivity]. Qed.
 
+
+(* ================================================================ mapping edits: the hypotheses are satisfiable
+   {"a": "ab", "b": 1} -> {"a": "ac", "c": 1} as DictNodes (MultiSetEdit: one pre-matched pair, one edge) and as
+   FixedKeyDictNodes (EditCollection: one shared key, one removal, one insertion).  The models share sub-results through
+   `let`: closed instances are evaluated by vm_compute only. *)
+Definition exm_a : tree := MSet true [ex_kvp true 97 (ex_str [97; 98]); ex_kvp true 98 ex_int].
+Definition exm_b : tree := MSet true [ex_kvp true 97 (ex_str [97; 99]); ex_kvp true 99 ex_int].
+Definition exf_a : tree := FDict [ex_kvp false 97 (ex_str [97; 98]); ex_kvp false 98 ex_int].
+Definition exf_b : tree := FDict [ex_kvp false 97 (ex_str [97; 99]); ex_kvp false 99 ex_int].
+Definition exm_s : ast := match initA0 exm_a exm_b with Some s => s | None => AConst 0 TOther end.
+Definition exf_s : ast := match initA0 exf_a exf_b with Some s => s | None => AConst 0 TOther end.
+Definition oz_eqb (x y : option Z) : bool :=
+  match x, y with Some a, Some b => a =? b | None, None => true | _, _ => false end.
+
+Example ex_maps_modelled :
+  initA0 exm_a exm_b = Some exm_s /\ tag_of exm_s = TMultiSet /\ initA0 exf_a exf_b = Some exf_s /\ tag_of exf_s = TFixedDict.
+Proof. vm_compute. repeat split. Qed.
+
+(* listing first / refining first / both settings of the status flag: same outcomes where comparable, same final cost *)
+Example ex_maps_histories :
+  (oz_eqb (finish_cost true (aheight exm_s) (fst (run_hist true (aheight exm_s) [cE; cT; cB] exm_s)))
+          (finish_cost false (aheight exm_s) (fst (run_hist false (aheight exm_s) [cT; cT; cB; cH; cE; ([1%nat], OTighten)] exm_s))) &&
+   oz_eqb (finish_cost true (aheight exm_s) exm_s) (finish_cost true (aheight exm_s) (fst (run_hist true (aheight exm_s) [cE] exm_s))) &&
+   negb (oz_eqb (finish_cost true (aheight exm_s) exm_s) None) &&
+   oz_eqb (finish_cost true (aheight exf_s) (fst (run_hist true (aheight exf_s) [cE; ([0%nat], OTighten); cT; cB] exf_s)))
+          (finish_cost false (aheight exf_s) (fst (run_hist false (aheight exf_s) [cT; cT; cC; cV; cH] exf_s))) &&
+   negb (oz_eqb (finish_cost true (aheight exf_s) exf_s) None)) = true.
+Proof. vm_compute. reflexivity. Qed.
+
+(* C05_model applies to both *)
+Example ex_maps_instance : (exists v, 0 <= v /\ forall quiet (h : history),
+    existsb is_err (snd (run_hist quiet (aheight exm_s) h exm_s)) = false /\
+    length (snd (run_hist quiet (aheight exm_s) h exm_s)) = length h /\
+    finish_cost quiet (aheight exm_s) (fst (run_hist quiet (aheight exm_s) h exm_s)) = Some v) /\
+  (exists v, 0 <= v /\ forall quiet (h : history),
+    existsb is_err (snd (run_hist quiet (aheight exf_s) h exf_s)) = false /\
+    length (snd (run_hist quiet (aheight exf_s) h exf_s)) = length h /\
+    finish_cost quiet (aheight exf_s) (fst (run_hist quiet (aheight exf_s) h exf_s)) = Some v).
+Proof.
+  split; [apply (C05_model [] exm_a exm_b exm_s); apply ex_maps_modelled|apply (C05_model [] exf_a exf_b exf_s); apply ex_maps_modelled].
+Qed.
